@@ -1,10 +1,66 @@
 /-
-  Sipsp.Proofs.IP6Spec — IP6Prefix / ContainsIP6: what they accept (a declarative grammar of the address text as the
-  code reads it), the value of the address, the verdicts, the rejections.
+  Sipsp.Proofs.IP6Spec — IP6Prefix / ContainsIP6 (ip_prefix.go): WHAT they accept. Extension of C20 (which is about
+  IPv4); C04 proves only that they never panic.
+
+  The grammar, as the code reads the text (NOT RFC 4291 where the code differs):
+    * `I6G` — a text of the scanner: the groups before "::" (each followed by a colon), whether the second colon of
+      "::" was read, the completed groups after it, the digits of the group being read; `I6G.text` are its bytes,
+      `I6G.WF` says what the parts are (groups of 1-4 hex digits, only the very first group may be empty, at most 7
+      colons without "::" and 8 with it), `I6G.Acc` that the address is complete (a "::", or 8 groups with a
+      non-empty last one), `I6G.value` the eight 16-bit words (`i6Value pre tail`: groups before, zero words, groups
+      after).
+    * `I6Addr l v` — the usual notation as far as the code accepts it: 8 groups, or groups "::" groups with at most 7
+      groups on either side and at most 8 in all. `I6Addr.toG` / `I6G.toAddr`: the complete texts of the scanner
+      are EXACTLY the `I6Addr` texts plus those with a single leading colon (`I6G.Lead`: an empty first group of
+      value 0, e.g. ":1:2:3:4:5:6:7", ":1::2") or a single trailing colon after a group that follows the "::"
+      (`I6G.Trail`, ignored, e.g. "1::2:"). With 8 groups written the "::" stands for no group ("1:2:3:4:5:6:7::8").
+  Proved for every buffer and every start position (`ip6Prefix b = ip6PrefixAt b 0`):
+    * `i6_prefixAt_char` (soundness, master form): the scanner reads some well-formed text `g` from the start position
+      (after a `[` that is followed by at least one byte) up to a position where it cannot go on (`I6Stops`), and the
+      whole result — accept flag, offset, verdict, words, no panic — is the one the decision table `I6Out`
+      prescribes for that position, `g`, and the byte found there.
+    * `i6_prefixAt_complete` (completeness, master form): conversely for EVERY well-formed `g` whose bytes stand at
+      the start position and after which the scanner cannot go on, the result is the one of `I6Out`
+      (`i6_reach`: every text of the grammar is read as such).
+    * `i6_prefixAt_sound` + `I6AccRes`: an accepting result has a complete address `g`; offset = end of `g` (one more
+      when the closing bracket is skipped); Ok = end of input, MoreValues = a fifth hex digit follows / a byte
+      follows the closing bracket, BadChar = another byte (or a colon too many) follows, MoreBytes = `[` address and
+      end of input (closing bracket missing: ACCEPTED); words = `g.value` — except at a colon too many, where they are
+      `g.valueCut` (see below). `i6_prefixAt_accepts_iff`: exactly which texts are accepted.
+    * `i6_prefixAt_addr`, `i6_prefixAt_bracketed`: every `I6Addr` text followed by the end / a byte that is neither
+      hex nor colon, and every `[` `I6Addr` `]` / `[` `I6Addr` end-of-input, is accepted with exactly its value,
+      length and verdict.
+    * the decision table on texts, with the returned offset (`i6_prefixAt_eof`, `_colon`, `_hex`, `_close`,
+      `_other`; `I6Out.*_inv`, `I6Out.rej_inv`): a third colon in a row or a second "::" — Bad at that colon; a colon
+      after 7 colons (no "::") or 8 (with "::") — the address ends there, BadChar (Bad inside brackets); a fifth hex
+      digit — MoreValues after a complete address (Bad inside brackets), Bad inside an address; any other byte —
+      BadChar after a complete address (Bad inside brackets: unbalanced bracket), Bad inside an address; end of input
+      inside an address — MoreBytes (Bad when nothing was read).
+    * the words are given as `a.toList = …` for the returned `Array Nat`; `I6G.value_words`, `I6G.valueCut_words`: they
+      are eight words, each below 2^16. The model does not have the
+      `dst` byte slice (Go writes word j big-endian to dst[2j], dst[2j+1] when len(dst) ≥ 16): NOT stated here.
+    * ContainsIP6: `i6_contains_sound` (the reported span starts 1-5 bytes before a colon and IP6Prefix accepts there
+      with the reported length and words; no panic), `i6_contains_none` / `i6_containsLoop_none` (completeness in the
+      form the code supports: nothing reported ⇒ IP6Prefix rejects at every position tried: for each colon at `d` the
+      five positions before it when d ≥ 5, else the positions back to the previous colon / the start),
+      `i6_try_some` (the first accepting one of the tried positions is reported).
+  Behaviour that looks like a defect of the library (reported, pinned by tests at the end; the theorems state what is
+  true):
+    * WRONG VALUE: an address with "::" and 8 colons that ends in a group, followed by a ninth colon, is accepted
+      (BadChar) but the last group is not copied: "::2:3:4:5:6:7:8:" gives 0:0:2:3:4:5:6:7, "1:2:3:4:5:6:7::8:" gives
+      1:2:3:4:5:6:7:0 (`I6G.valueCut`, `i6ExCut`; `I6G.valueCut_eq`: otherwise the value is right).
+    * accepted non-addresses: a single leading colon, a single trailing colon after the "::" part, `[` address without
+      `]` (MoreBytes but accept = true), and "1:2:3:4:5:6:7:::" (accepted up to the "::", BadChar) while "1:::" is
+      rejected.
+    * ContainsIP6 never tries a position at or after the first colon of a run, so a Call-ID that STARTS with "::1" or
+      "::ffff:…" is not found (tests).
+  Not proved: uniqueness of the decomposition `g` of a given text as a stand-alone statement (not needed: the master
+  theorems quantify over it on the right side), leftmost/longest statements for ContainsIP6 beyond `i6_try_some`.
 -/
 import Sipsp.Model.Sig
 import Sipsp.Proofs.Lex
 import Sipsp.Proofs.IP4
+import Sipsp.Proofs.SafeRest
 
 namespace Sipsp
 
@@ -535,14 +591,14 @@ theorem I6G.text_colon (g : I6G) (h : g.two = false → g.post = []) : g.colon.t
   · simp only [Bool.false_eq_true, ↓reduceIte]
     have hp := h ht
     cases hf : (g.cur.isEmpty && !g.pre.isEmpty)
-    · simp only [Bool.false_eq_true, ↓reduceIte, ht]; rw [i6T_close]
+    · simp only [Bool.false_eq_true, ↓reduceIte]; rw [i6T_close]
     · simp only [↓reduceIte]
       have hc : g.cur = [] := by
         cases hh : g.cur with
         | nil => rfl
         | cons a as => rw [hh] at hf; simp at hf
       rw [hp, hc]; rfl
-  · simp only [↓reduceIte, List.append_assoc, List.cons_append, ht]; rw [i6T_close]
+  · simp only [↓reduceIte, List.append_assoc, List.cons_append]; rw [i6T_close]
 
 theorem i6_beq58 {c : UInt8} (h : I6IsHex c) : (c == 58) = false := by
   cases hc : c == 58
@@ -569,22 +625,7 @@ theorem i6_step_colon {b : Buf} {o : Nat} {st : IP6St} {g : I6G} (h : I6Rep st g
   simp only [beq_self_eq_true, ↓reduceIte, hgo, Bool.false_eq_true]
   have hcol := h.colons
   unfold I6G.colons at hcol
-  unfold I6G.colon
-  cases ht : g.two
-  · have hu : st.use2 = false := by rw [h.use2, ht]
-    rw [ht] at hcol
-    simp only [Bool.false_eq_true, ↓reduceIte, Nat.add_zero] at hcol
-    cases hf : st.foundColon
-    · simp only [Bool.false_eq_true, ↓reduceIte]
-      rw [← h.fc, hf]
-      simp only [Bool.false_eq_true, ↓reduceIte]
-      rw [hu, hf] at hgo
-      simp at hgo
-      exact ⟨_, rfl, i6_rep_colon1 h ht hf (by omega), rfl⟩
-    · simp only [↓reduceIte, hu, Bool.false_eq_true]
-      rw [← h.fc, hf]
-      simp only [↓reduceIte]
-      exact ⟨_, rfl, i6_rep_colon2 h ht hf, rfl⟩
+  by_cases ht : g.two = true
   · have hu : st.use2 = true := by rw [h.use2, ht]
     rw [ht] at hcol
     simp only [↓reduceIte] at hcol
@@ -592,9 +633,2066 @@ theorem i6_step_colon {b : Buf} {o : Nat} {st : IP6St} {g : I6G} (h : I6Rep st g
       cases hf : st.foundColon
       · rfl
       · rw [hf, hu] at hnr; simp at hnr
-    simp only [hf, Bool.false_eq_true, ↓reduceIte]
+    have hg : g.colon = { g with post := g.post ++ [g.cur], cur := [] } := by
+      unfold I6G.colon; rw [if_pos ht]
+    rw [hg, if_neg (by rw [hf]; simp)]
     rw [hu, hf] at hgo
     simp at hgo
     exact ⟨_, rfl, i6_rep_colon3 h ht hf (by omega), rfl⟩
+  · have ht : g.two = false := by simpa using ht
+    have hu : st.use2 = false := by rw [h.use2, ht]
+    rw [ht] at hcol
+    simp only [Bool.false_eq_true, ↓reduceIte, Nat.add_zero] at hcol
+    by_cases hf : st.foundColon = true
+    · have hg : g.colon = { g with two := true } := by
+        unfold I6G.colon; rw [if_neg (by rw [ht]; simp), if_pos (by rw [← h.fc]; exact hf)]
+      rw [hg, if_pos hf, if_neg (by rw [hu]; simp)]
+      exact ⟨_, rfl, i6_rep_colon2 h ht hf, rfl⟩
+    · have hf : st.foundColon = false := by simpa using hf
+      have hg : g.colon = { g with pre := g.pre ++ [g.cur], cur := [] } := by
+        unfold I6G.colon; rw [if_neg (by rw [ht]; simp), if_neg (by rw [← h.fc, hf]; simp)]
+      rw [hg, if_neg (by rw [hf]; simp)]
+      rw [hu, hf] at hgo
+      simp at hgo
+      exact ⟨_, rfl, i6_rep_colon1 h ht hf (by omega), rfl⟩
+
+/-- the scanner stops at `o` in state `st`: end of input, a colon that is not accepted, a fifth hex digit, or a byte
+    that is neither -/
+def I6Halt (b : Buf) (o : Nat) (st : IP6St) : Prop :=
+  ∀ c, b[o]? = some c →
+    (c = 58 → (decide (st.colonsNo + 1 > 7) && (decide (st.colonsNo + 1 > 8) || (!st.use2 && !st.foundColon))) = true ∨
+              (st.foundColon && st.use2) = true) ∧
+    (I6IsHex c → 4 ≤ st.digits)
+
+/-- the loop runs up to a position where it stops; the state there stands for the bytes read -/
+theorem i6_run (b : Buf) (s : Nat) : ∀ (n o : Nat) (st : IP6St) (g : I6G), b.size - o = n → I6Rep st g → s ≤ o →
+    i6Seg b s o = g.text → o = s + g.text.length →
+    ∃ o' st' g', I6Rep st' g' ∧ o ≤ o' ∧ i6Seg b s o' = g'.text ∧ st'.bracketSt = st.bracketSt ∧
+      ip6Loop b o st = ip6Loop b o' st' ∧ I6Halt b o' st' ∧ o' = s + g'.text.length := by
+  intro n
+  induction n with
+  | zero =>
+    intro o st g hn hrep hs htxt hlen
+    refine ⟨o, st, g, hrep, Nat.le_refl _, htxt, rfl, rfl, ?_, hlen⟩
+    intro c hc
+    have := get?_lt hc
+    omega
+  | succ n ih =>
+    intro o st g hn hrep hs htxt hlen
+    cases hb : b[o]? with
+    | none =>
+      refine ⟨o, st, g, hrep, Nat.le_refl _, htxt, rfl, rfl, ?_, hlen⟩
+      intro c hc; rw [hb] at hc; cases hc
+    | some c =>
+      by_cases hhalt : I6Halt b o st
+      · exact ⟨o, st, g, hrep, Nat.le_refl _, htxt, rfl, rfl, hhalt, hlen⟩
+      · have hstep : ∃ st' g', ip6Loop b o st = ip6Loop b (o + 1) st' ∧ I6Rep st' g' ∧
+            st'.bracketSt = st.bracketSt ∧ g'.text = g.text ++ [c] := by
+          by_cases h58 : c = 58
+          · subst h58
+            have hgo : (decide (st.colonsNo + 1 > 7) &&
+                (decide (st.colonsNo + 1 > 8) || (!st.use2 && !st.foundColon))) = false := by
+              cases hh : (decide (st.colonsNo + 1 > 7) &&
+                (decide (st.colonsNo + 1 > 8) || (!st.use2 && !st.foundColon)))
+              · rfl
+              · exfalso; apply hhalt
+                intro c hc; rw [hb] at hc; cases hc
+                exact ⟨fun _ => Or.inl hh, fun hx => absurd hx i6_colon_not_hex⟩
+            have hnr : (st.foundColon && st.use2) = false := by
+              cases hh : (st.foundColon && st.use2)
+              · rfl
+              · exfalso; apply hhalt
+                intro c hc; rw [hb] at hc; cases hc
+                exact ⟨fun _ => Or.inr hh, fun hx => absurd hx i6_colon_not_hex⟩
+            obtain ⟨st', h1, h2, h3⟩ := i6_step_colon hrep hb hgo hnr
+            exact ⟨st', _, h1, h2, h3, g.text_colon (fun ht => (hrep.wf.one ht).1)⟩
+          · have hx : I6IsHex c ∧ st.digits < 4 := by
+              by_cases hx : I6IsHex c ∧ st.digits < 4
+              · exact hx
+              · exfalso; apply hhalt
+                intro c' hc; rw [hb] at hc; cases hc
+                refine ⟨fun e => absurd e h58, fun hh => ?_⟩
+                rcases Nat.lt_or_ge st.digits 4 with hd | hd
+                · exact absurd ⟨hh, hd⟩ hx
+                · exact hd
+            obtain ⟨st', h1, h2, h3⟩ := i6_step_hex hrep hb hx.1 (by rw [← hrep.digits]; exact hx.2)
+            exact ⟨st', _, h1, h2, h3, g.text_hex c⟩
+        obtain ⟨st', g', h1, h2, h3, h4⟩ := hstep
+        have hlt := get?_lt hb
+        obtain ⟨o', st'', g'', r1, r2, r3, r4, r5, r6, r7⟩ :=
+          ih (o + 1) st' g' (by omega) h2 (by omega) (by rw [i6Seg_snoc hb hs, htxt, h4])
+            (by rw [h4, List.length_append, List.length_singleton]; omega)
+        exact ⟨o', st'', g'', r1, by omega, r3, by rw [r4, h3], by rw [h1, r5], r6, r7⟩
+
+/-! ### the code after the loop -/
+
+/-- the word buffer after the "::" fix-up (`copy(addrBuf1[i1+rest:], addrBuf2[:i])`) -/
+def i6Fix (st : IP6St) : Array Nat :=
+  if st.use2 then (List.range (min st.i 8)).foldl (fun a k => a.set! (8 - st.i + k) (st.a2[k]!)) st.a1 else st.a1
+
+theorem i6_fold_copy (a1 a2 : Array Nat) (i : Nat) (n : Nat) :
+    ((List.range n).foldl (fun a k => a.set! (8 - i + k) (a2[k]!)) a1).size = a1.size ∧
+    ∀ k, k < a1.size → ((List.range n).foldl (fun a k => a.set! (8 - i + k) (a2[k]!)) a1)[k]! =
+      if 8 - i ≤ k ∧ k < 8 - i + n then a2[k - (8 - i)]! else a1[k]! := by
+  induction n with
+  | zero =>
+    refine ⟨rfl, fun k _ => ?_⟩
+    rw [if_neg (by omega)]; rfl
+  | succ n ih =>
+    rw [List.range_succ, List.foldl_append]
+    simp only [List.foldl_cons, List.foldl_nil]
+    refine ⟨by rw [← ih.1]; simp, fun k hk => ?_⟩
+    by_cases hkn : 8 - i + n = k
+    · rw [← hkn, set!_get_same _ _ _ (by rw [ih.1]; omega), if_pos (by omega)]
+      congr 1; omega
+    · rw [set!_get_ne _ _ _ _ hkn, ih.2 k hk]
+      by_cases hc : 8 - i ≤ k ∧ k < 8 - i + n
+      · rw [if_pos hc, if_pos (by omega)]
+      · rw [if_neg hc, if_neg (by omega)]
+
+theorem i6Fix_val (st : IP6St) (hs : st.a1.size = 8) (hi : st.i ≤ 8) :
+    (i6Fix st).size = 8 ∧
+    ∀ k, k < 8 → (i6Fix st)[k]! = if st.use2 = true ∧ 8 - st.i ≤ k then st.a2[k - (8 - st.i)]! else st.a1[k]! := by
+  unfold i6Fix
+  cases hu : st.use2
+  · simp only [Bool.false_eq_true, ↓reduceIte, false_and]
+    exact ⟨hs, fun _ _ => trivial⟩
+  · simp only [↓reduceIte, true_and]
+    have := i6_fold_copy st.a1 st.a2 st.i (min st.i 8)
+    refine ⟨by rw [this.1, hs], fun k hk => ?_⟩
+    rw [this.2 k (by omega)]
+    have hm : min st.i 8 = st.i := Nat.min_eq_left hi
+    rw [hm]
+    by_cases hc : 8 - st.i ≤ k
+    · rw [if_pos ⟨hc, by omega⟩, if_pos hc]
+    · rw [if_neg (fun h => hc h.1), if_neg hc]
+
+/-- the verdict of an address that is complete: brackets and what stopped the loop -/
+def i6Fin (b : Buf) (s o : Nat) (bst bend : Bool) (err : Err) (a : Array Nat) (p : Bool) :
+    Bool × Nat × Err × Array Nat × Bool :=
+  if err == .ok then
+    if bst then
+      if bend then (true, o + 1 - s, (if o + 1 < b.size then .moreValues else .ok), a, p)
+      else (true, o - s, .moreBytes, a, p)
+    else if bend then (true, o - s, .badChar, a, p)
+    else (true, o - s, .ok, a, p)
+  else if err == .moreValues then
+    if bst && !bend then (false, o - s, .bad, a, p) else (true, o - s, err, a, p)
+  else if err == .badChar && bst then (false, o - s, .bad, a, p)
+  else (true, o - s, err, a, p)
+
+theorem i6_end_acc (b : Buf) (s o : Nat) (st : IP6St) (h1 : (st.digits == 0 && !st.foundColon) = false)
+    (h2 : (!st.use2 && (decide (st.colonsNo < 7) || st.digits == 0)) = false) :
+    ip6End b s o st = i6Fin b s o st.bracketSt st.bracketEnd st.err (i6Fix st)
+      (st.pnc || (st.use2 && decide (st.i > 8))) := by
+  unfold ip6End i6Fin i6Fix
+  simp only [h1, h2, Bool.false_eq_true, ↓reduceIte]
+
+theorem i6_end_early (b : Buf) (s o : Nat) (st : IP6St)
+    (h2 : (!st.use2 && (decide (st.colonsNo < 7) || st.digits == 0)) = true) :
+    ip6End b s o st = (false, o - s,
+      (if (st.digits == 0 && !st.foundColon) = false ∧ st.err = .ok ∧ st.bracketEnd = false then .moreBytes else .bad),
+      st.a1, st.pnc) := by
+  unfold ip6End
+  simp only [h2, ↓reduceIte]
+  cases h1 : (st.digits == 0 && !st.foundColon)
+  · simp only [Bool.false_eq_true, ↓reduceIte, true_and]
+    cases he : st.err <;> cases hb : st.bracketEnd <;> simp
+  · simp only [↓reduceIte, Bool.true_eq_false, false_and]
+    cases hb : st.bracketEnd <;> simp
+
+/-! ### the value of the address -/
+
+/-- the eight 16-bit groups: the groups before "::", zero groups, the groups after it -/
+def i6Value (pre tail : List (List UInt8)) : List Nat :=
+  pre.map i6Val ++ List.replicate (8 - pre.length - tail.length) 0 ++ tail.map i6Val
+
+theorem i6Value_length (pre tail : List (List UInt8)) (h : pre.length + tail.length ≤ 8) :
+    (i6Value pre tail).length = 8 := by
+  simp [i6Value]; omega
+
+theorem i6Value_get (pre tail : List (List UInt8)) (h : pre.length + tail.length ≤ 8) (k : Nat) (hk : k < 8) :
+    (i6Value pre tail)[k]! =
+      if k < pre.length then i6Val pre[k]! else if k < 8 - tail.length then 0 else i6Val tail[k - (8 - tail.length)]! := by
+  unfold i6Value
+  rw [List.append_assoc]
+  simp only [List.getElem!_eq_getElem?_getD]
+  by_cases h1 : k < pre.length
+  · rw [if_pos h1, List.getElem?_append_left (by simpa using h1)]
+    simp [h1]
+  · rw [if_neg h1, List.getElem?_append_right (by simpa using h1)]
+    simp only [List.length_map]
+    by_cases h2 : k < 8 - tail.length
+    · rw [if_pos h2, List.getElem?_append_left (by simp; omega)]
+      rw [List.getElem?_replicate]; split <;> rfl
+    · rw [if_neg h2, List.getElem?_append_right (by simp; omega)]
+      simp only [List.length_replicate]
+      have e : k - pre.length - (8 - pre.length - tail.length) = k - (8 - tail.length) := by omega
+      rw [e]
+      have h3 : k - (8 - tail.length) < tail.length := by omega
+      simp [h3]
+
+theorem i6_toList_eq (a : Array Nat) (l : List Nat) (hs : a.size = l.length) (h : ∀ k, k < l.length → a[k]! = l[k]!) :
+    a.toList = l := by
+  apply List.ext_getElem
+  · simpa using hs
+  · intro k h1 h2
+    have := h k h2
+    simp only [getElem!_pos, h2, hs ▸ h2] at this
+    simpa using this
+theorem i6_fix_value {st : IP6St} {g : I6G} (hrep : I6Rep st g) (st' : IP6St) (ha1 : st'.a1 = st.a1)
+    (ha2 : st'.a2 = st.a2) (hu : st'.use2 = st.use2) (tail : List (List UInt8))
+    (hi : g.two = true → st'.i = tail.length) (htail : tail = g.post ∨ tail = g.post ++ [g.cur])
+    (hacc : g.two = false → g.pre.length = 7) :
+    (i6Fix st').toList = if g.two then i6Value g.pre tail else i6Value (g.pre ++ [g.cur]) [] := by
+  by_cases ht : g.two = true
+  · rw [if_pos ht]
+    have hw := (hrep.wf.tw ht).2
+    have htl : tail.length ≤ g.post.length + 1 := by
+      rcases htail with h | h <;> rw [h] <;> simp
+    have hle : g.pre.length + tail.length ≤ 8 := by omega
+    have hfix := i6Fix_val st' (by rw [ha1]; exact hrep.s1) (by rw [hi ht]; omega)
+    apply i6_toList_eq
+    · rw [hfix.1, i6Value_length _ _ hle]
+    · intro k hk
+      rw [i6Value_length _ _ hle] at hk
+      rw [hfix.2 k hk, i6Value_get _ _ hle k hk, hi ht, ha1, ha2, hu, hrep.use2, hrep.a1, hrep.a2]
+      simp only [I6G.v1, I6G.v2, ht, true_and, Bool.true_eq_false, and_false, ↓reduceIte]
+      by_cases h1 : k < g.pre.length
+      · rw [if_neg (by omega), if_pos h1, if_pos h1]
+      · simp only [h1, ↓reduceIte]
+        by_cases h2 : k < 8 - tail.length
+        · rw [if_neg (by omega), if_pos h2]
+        · rw [if_pos (by omega), if_neg h2]
+          rcases htail with h | h
+          · subst h
+            rw [if_pos (by omega)]
+          · subst h
+            simp only [List.length_append, List.length_singleton] at h2 ⊢
+            by_cases h3 : k - (8 - (g.post.length + 1)) < g.post.length
+            · rw [if_pos h3, i6_get_snoc_lt _ _ h3]
+            · have e : k - (8 - (g.post.length + 1)) = g.post.length := by omega
+              rw [e, if_neg (Nat.lt_irrefl _), if_pos rfl, i6_get_snoc_eq]
+  · have ht : g.two = false := by simpa using ht
+    rw [if_neg (by rw [ht]; simp)]
+    have h7 := hacc ht
+    have hle : (g.pre ++ [g.cur]).length + ([] : List (List UInt8)).length ≤ 8 := by simp only [List.length_append, List.length_singleton, List.length_nil]; omega
+    have hf : i6Fix st' = st.a1 := by
+      unfold i6Fix; rw [hu, hrep.use2, ht, ← ha1]; rfl
+    apply i6_toList_eq
+    · rw [hf, hrep.s1, i6Value_length _ _ hle]
+    · intro k hk
+      rw [i6Value_length _ _ hle] at hk
+      rw [hf, i6Value_get _ _ hle k hk, hrep.a1]
+      simp only [I6G.v1, ht, and_true, List.length_append, List.length_singleton, h7]
+      have hk8 : k < 7 + 1 := by omega
+      rw [if_pos hk8]
+      by_cases h1 : k < 7
+      · rw [if_pos h1, i6_get_snoc_lt _ _ (by omega)]
+      · have e : k = 7 := by omega
+        subst e
+        rw [if_neg h1, if_pos rfl]
+        have := i6_get_snoc_eq g.pre g.cur
+        rw [h7] at this; rw [this]
+
+/-! ### complete and incomplete addresses at the end of the loop -/
+
+/-- the address is complete: it has a "::", or eight groups the last of which is not empty -/
+def I6G.Acc (g : I6G) : Prop := g.two = true ∨ (g.pre.length = 7 ∧ g.cur ≠ [])
+
+/-- the groups after "::", the one being read included when it has digits -/
+def I6G.tail (g : I6G) : List (List UInt8) := if g.cur.isEmpty then g.post else g.post ++ [g.cur]
+
+/-- the eight words of a complete address -/
+def I6G.value (g : I6G) : List Nat :=
+  if g.two then i6Value g.pre g.tail else i6Value (g.pre ++ [g.cur]) []
+
+/-- the opening bracket is taken only when another byte follows it -/
+def i6Br (b : Buf) (s : Nat) : Bool :=
+  match b[s]?, b[s + 1]? with
+  | some c0, some _ => c0 == 91
+  | _, _ => false
+
+/-- what `IP6Prefix` does with the way the loop ended -/
+def i6Post (b : Buf) (s : Nat) : IP6Exit → Bool × Nat × Err × Array Nat × Bool
+  | .ret o e => (false, o - s, e, Array.replicate 8 0, false)
+  | .gotoEnd o st => ip6End b s o st
+  | .loopEnd o st => ip6End b s o (if !st.foundColon then { st with i := st.i + 1 } else st)
+
+theorem i6_prefixAt_eq (b : Buf) (s : Nat) :
+    ip6PrefixAt b s = i6Post b s (ip6Loop b (if i6Br b s then s + 1 else s) { bracketSt := i6Br b s }) := by
+  unfold ip6PrefixAt i6Br
+  simp only
+  generalize ip6Loop b _ _ = x
+  cases x <;> rfl
+
+theorem i6_end_of_acc (b : Buf) (s o : Nat) {st : IP6St} {g : I6G} (hrep : I6Rep st g) (hacc : g.Acc) (stE : IP6St)
+    (e1 : stE.a1 = st.a1) (e2 : stE.a2 = st.a2) (eu : stE.use2 = st.use2) (ep : stE.pnc = false)
+    (ec : st.colonsNo ≤ stE.colonsNo) (hd : g.two = false → stE.digits ≠ 0)
+    (hne : (stE.digits == 0 && !stE.foundColon) = false)
+    (tail : List (List UInt8)) (hi : g.two = true → stE.i = tail.length)
+    (htail : tail = g.post ∨ tail = g.post ++ [g.cur]) :
+    ∃ a, a.toList = (if g.two then i6Value g.pre tail else i6Value (g.pre ++ [g.cur]) []) ∧
+      ip6End b s o stE = i6Fin b s o stE.bracketSt stE.bracketEnd stE.err a false := by
+  have h7 : g.two = false → g.pre.length = 7 := by
+    intro ht
+    rcases hacc with h | h
+    · rw [ht] at h; cases h
+    · exact h.1
+  have h2 : (!stE.use2 && (decide (stE.colonsNo < 7) || stE.digits == 0)) = false := by
+    rw [eu, hrep.use2]
+    cases ht : g.two
+    · have hc : 7 ≤ stE.colonsNo := by
+        have := hrep.colons
+        unfold I6G.colons at this
+        rw [ht] at this
+        simp only [Bool.false_eq_true, ↓reduceIte, Nat.add_zero] at this
+        have := h7 ht
+        omega
+      have hdd := hd ht
+      simp only [Bool.not_false, Bool.true_and, Bool.or_eq_false_iff, decide_eq_false_iff_not, Nat.not_lt,
+        beq_eq_false_iff_ne, ne_eq]
+      exact ⟨hc, hdd⟩
+    · rfl
+  have hp : (stE.pnc || (stE.use2 && decide (stE.i > 8))) = false := by
+    rw [ep, eu, hrep.use2]
+    cases ht : g.two
+    · rfl
+    · have hw := (hrep.wf.tw ht).2
+      have htl : tail.length ≤ g.post.length + 1 := by
+        rcases htail with h | h <;> rw [h] <;> simp
+      have := hi ht
+      simp only [Bool.false_or, Bool.true_and, decide_eq_false_iff_not, Nat.not_lt, ge_iff_le, gt_iff_lt]
+      omega
+  refine ⟨i6Fix stE, i6_fix_value hrep stE e1 e2 eu tail hi htail h7, ?_⟩
+  rw [i6_end_acc b s o stE hne h2, hp]
+
+theorem i6_end_of_rej (b : Buf) (s o : Nat) {st : IP6St} {g : I6G} (hrep : I6Rep st g) (hacc : ¬ g.Acc) (stE : IP6St)
+    (e1 : stE.a1 = st.a1) (eu : stE.use2 = st.use2) (ep : stE.pnc = false)
+    (ec : stE.colonsNo = st.colonsNo) (hd : g.cur = [] → stE.digits = 0) :
+    ip6End b s o stE = (false, o - s,
+      (if (stE.digits == 0 && !stE.foundColon) = false ∧ stE.err = .ok ∧ stE.bracketEnd = false then .moreBytes
+       else .bad), st.a1, false) := by
+  have ht : g.two = false := by
+    cases ht : g.two
+    · rfl
+    · exact absurd (Or.inl ht) hacc
+  have h2 : (!stE.use2 && (decide (stE.colonsNo < 7) || stE.digits == 0)) = true := by
+    rw [eu, hrep.use2, ht, ec, hrep.colons]
+    unfold I6G.colons
+    rw [ht]
+    simp only [Bool.not_false, Bool.true_and, Bool.false_eq_true, ↓reduceIte, Nat.add_zero, Bool.or_eq_true,
+      decide_eq_true_eq, beq_iff_eq]
+    have h7 := (hrep.wf.one ht).2
+    by_cases hc : g.cur = []
+    · exact Or.inr (hd hc)
+    · left
+      rcases Nat.lt_or_ge g.pre.length 7 with h | h
+      · exact h
+      · exact absurd (Or.inr ⟨by omega, hc⟩) hacc
+  rw [i6_end_early b s o stE h2, e1, ep]
+
+
+/-- `if !foundColon { i++ }` -/
+def i6Bump (st : IP6St) : IP6St := if !st.foundColon then { st with i := st.i + 1 } else st
+
+theorem I6Rep.fc_two {st : IP6St} {g : I6G} (h : I6Rep st g) (ht : g.two = true) : st.foundColon = g.cur.isEmpty := by
+  rw [h.fc]
+  have := (h.wf.tw ht).1
+  cases hp : g.pre with
+  | nil => exact absurd hp this
+  | cons p ps => simp
+
+theorem I6G.Acc.not_empty {g : I6G} (wf : g.WF) (h : g.Acc) : (g.cur.isEmpty && g.pre.isEmpty) = false := by
+  rcases h with h | h
+  · have := (wf.tw h).1
+    cases hp : g.pre with
+    | nil => exact absurd hp this
+    | cons p ps => simp
+  · cases hc : g.cur with
+    | nil => exact absurd hc h.2
+    | cons a as => simp
+
+/-- the loop stopped at the end of input, at a closing bracket or at a byte that is no part of an address -/
+theorem i6_out_nro (b : Buf) (s o : Nat) {st : IP6St} {g : I6G} (hrep : I6Rep st g) (be : Bool) (e : Err) :
+    (g.Acc → ∃ a, a.toList = g.value ∧
+      ip6End b s o (i6Bump { st with bracketEnd := be, err := e }) = i6Fin b s o st.bracketSt be e a false) ∧
+    (¬ g.Acc → ip6End b s o (i6Bump { st with bracketEnd := be, err := e }) =
+      (false, o - s, (if (g.cur.isEmpty && g.pre.isEmpty) = false ∧ e = .ok ∧ be = false then .moreBytes else .bad),
+        st.a1, false)) := by
+  have hb1 : (i6Bump { st with bracketEnd := be, err := e }).a1 = st.a1 := by unfold i6Bump; split <;> rfl
+  have hb2 : (i6Bump { st with bracketEnd := be, err := e }).a2 = st.a2 := by unfold i6Bump; split <;> rfl
+  have hbu : (i6Bump { st with bracketEnd := be, err := e }).use2 = st.use2 := by unfold i6Bump; split <;> rfl
+  have hbp : (i6Bump { st with bracketEnd := be, err := e }).pnc = st.pnc := by unfold i6Bump; split <;> rfl
+  have hbc : (i6Bump { st with bracketEnd := be, err := e }).colonsNo = st.colonsNo := by unfold i6Bump; split <;> rfl
+  have hbd : (i6Bump { st with bracketEnd := be, err := e }).digits = st.digits := by unfold i6Bump; split <;> rfl
+  have hbf : (i6Bump { st with bracketEnd := be, err := e }).foundColon = st.foundColon := by
+    unfold i6Bump; split <;> rfl
+  have hbs : (i6Bump { st with bracketEnd := be, err := e }).bracketSt = st.bracketSt := by unfold i6Bump; split <;> rfl
+  have hbe : (i6Bump { st with bracketEnd := be, err := e }).bracketEnd = be := by unfold i6Bump; split <;> rfl
+  have hber : (i6Bump { st with bracketEnd := be, err := e }).err = e := by unfold i6Bump; split <;> rfl
+  have hbi : (i6Bump { st with bracketEnd := be, err := e }).i = if st.foundColon then st.i else st.i + 1 := by
+    unfold i6Bump
+    cases hf : st.foundColon <;> simp
+  have hempty : (st.digits == 0 && !st.foundColon) = (g.cur.isEmpty && g.pre.isEmpty) := by
+    rw [hrep.digits, hrep.fc]
+    cases hc : g.cur <;> cases hp : g.pre <;> simp
+  constructor
+  · intro hacc
+    have hne := hacc.not_empty hrep.wf
+    obtain ⟨a, ha, hend⟩ := i6_end_of_acc b s o hrep hacc (i6Bump { st with bracketEnd := be, err := e }) hb1 hb2 hbu
+      (by rw [hbp, hrep.pnc]) (by rw [hbc]; exact Nat.le_refl _)
+      (fun ht => by
+        rw [hbd, hrep.digits]
+        rcases hacc with h | h
+        · rw [ht] at h; cases h
+        · intro hl; exact h.2 (List.eq_nil_of_length_eq_zero hl))
+      (by rw [hbd, hbf, hempty]; exact hne)
+      g.tail
+      (fun ht => by
+        rw [hbi, hrep.fc_two ht, hrep.idx, ht]
+        unfold I6G.tail
+        cases hc : g.cur.isEmpty <;> simp)
+      (by unfold I6G.tail; cases hc : g.cur.isEmpty <;> simp)
+    refine ⟨a, ha, ?_⟩
+    rw [hend, hbs, hbe, hber]
+  · intro hacc
+    rw [i6_end_of_rej b s o hrep hacc (i6Bump { st with bracketEnd := be, err := e }) hb1 hbu (by rw [hbp, hrep.pnc]) hbc
+      (fun hc => by rw [hbd, hrep.digits, hc]; rfl)]
+    rw [hbd, hbf, hempty, hbe, hber]
+
+/-- the loop stopped at a fifth hex digit -/
+theorem i6_out_more (b : Buf) (s o : Nat) {st : IP6St} {g : I6G} (hrep : I6Rep st g) (hd : 4 ≤ st.digits) :
+    (g.Acc → ∃ a, a.toList = g.value ∧
+      ip6End b s o (i6Bump { st with foundColon := false, digits := st.digits + 1, err := .moreValues }) =
+        i6Fin b s o st.bracketSt false .moreValues a false) ∧
+    (¬ g.Acc → ip6End b s o (i6Bump { st with foundColon := false, digits := st.digits + 1, err := .moreValues }) =
+      (false, o - s, .bad, st.a1, false)) := by
+  have hcur : g.cur.isEmpty = false := by
+    cases hc : g.cur with
+    | nil => have := hrep.digits; rw [hc] at this; simp at this; omega
+    | cons a as => rfl
+  have hb : i6Bump { st with foundColon := false, digits := st.digits + 1, err := .moreValues } =
+      { st with foundColon := false, digits := st.digits + 1, err := .moreValues, i := st.i + 1 } := rfl
+  rw [hb]
+  constructor
+  · intro hacc
+    obtain ⟨a, ha, hend⟩ := i6_end_of_acc b s o hrep hacc
+      { st with foundColon := false, digits := st.digits + 1, err := .moreValues, i := st.i + 1 } rfl rfl rfl hrep.pnc
+      (Nat.le_refl _) (fun _ => by show st.digits + 1 ≠ 0; omega)
+      (by show (st.digits + 1 == 0 && !false) = false; simp)
+      g.tail
+      (fun ht => by
+        show st.i + 1 = g.tail.length
+        rw [hrep.idx, ht]
+        unfold I6G.tail
+        rw [hcur]; simp)
+      (by unfold I6G.tail; rw [hcur]; simp)
+    refine ⟨a, ha, ?_⟩
+    rw [hend]
+    show i6Fin b s o st.bracketSt st.bracketEnd .moreValues a false = _
+    rw [hrep.bend]
+  · intro hacc
+    rw [i6_end_of_rej b s o hrep hacc
+      { st with foundColon := false, digits := st.digits + 1, err := .moreValues, i := st.i + 1 } rfl rfl hrep.pnc rfl
+      (fun hc => by rw [hc] at hcur; simp at hcur)]
+    simp
+
+/-- the loop stopped at a colon that is one too many (`goto end`) -/
+theorem i6_out_goto (b : Buf) (s o : Nat) {st : IP6St} {g : I6G} (hrep : I6Rep st g)
+    (hgo : (decide (st.colonsNo + 1 > 7) && (decide (st.colonsNo + 1 > 8) || (!st.use2 && !st.foundColon))) = true) :
+    g.Acc ∧ g.colons = (if g.two then 8 else 7) ∧ (g.two = false → g.cur ≠ []) ∧
+    ∃ a, a.toList = (if g.two then i6Value g.pre g.post else i6Value (g.pre ++ [g.cur]) []) ∧
+      ip6End b s o { st with colonsNo := st.colonsNo + 1, err := .badChar } =
+        (if st.bracketSt then (false, o - s, .bad, a, false) else (true, o - s, .badChar, a, false)) := by
+  have hcol := hrep.colons
+  have hcol' := hcol
+  unfold I6G.colons at hcol
+  have hpre : g.pre ≠ [] := by
+    intro hp
+    by_cases ht : g.two = true
+    · exact (hrep.wf.tw ht).1 hp
+    · have ht : g.two = false := by simpa using ht
+      rw [ht, hp] at hcol
+      simp at hcol
+      rw [hcol] at hgo
+      simp at hgo
+  have hfc : st.foundColon = g.cur.isEmpty := by
+    rw [hrep.fc]
+    cases hp : g.pre with
+    | nil => exact absurd hp hpre
+    | cons p ps => simp
+  have hacc : g.Acc ∧ g.colons = (if g.two then 8 else 7) ∧ (g.two = false → g.cur ≠ []) := by
+    by_cases ht : g.two = true
+    · refine ⟨Or.inl ht, ?_, fun h => by rw [ht] at h; cases h⟩
+      have := (hrep.wf.tw ht).2
+      rw [ht] at hcol
+      simp only [↓reduceIte] at hcol
+      rw [hrep.use2, ht] at hgo
+      simp at hgo
+      rw [← hcol', ht]; simp only [↓reduceIte]; omega
+    · have ht : g.two = false := by simpa using ht
+      have := (hrep.wf.one ht).2
+      rw [ht] at hcol
+      simp only [Bool.false_eq_true, ↓reduceIte, Nat.add_zero] at hcol
+      rw [hrep.use2, ht, hfc] at hgo
+      simp at hgo
+      have hc : g.cur ≠ [] := by
+        intro hc
+        have h2 := hgo.2
+        rcases h2 with h2 | h2
+        · omega
+        · rw [hc] at h2; simp at h2
+      refine ⟨Or.inr ⟨by omega, hc⟩, ?_, fun _ => hc⟩
+      rw [← hcol', ht]; simp only [Bool.false_eq_true, ↓reduceIte]; omega
+  refine ⟨hacc.1, hacc.2.1, hacc.2.2, ?_⟩
+  obtain ⟨a, ha, hend⟩ := i6_end_of_acc b s o hrep hacc.1 { st with colonsNo := st.colonsNo + 1, err := .badChar }
+    rfl rfl rfl hrep.pnc (Nat.le_succ _)
+    (fun ht => by
+      show st.digits ≠ 0
+      rw [hrep.digits]
+      intro hl; exact hacc.2.2 ht (List.eq_nil_of_length_eq_zero hl))
+    (by
+      show (st.digits == 0 && !st.foundColon) = false
+      rw [hrep.digits, hfc]
+      cases hc : g.cur <;> simp)
+    g.post (fun ht => by show st.i = g.post.length; rw [hrep.idx, ht]; rfl) (Or.inl rfl)
+  refine ⟨a, ha, ?_⟩
+  rw [hend]
+  show i6Fin b s o st.bracketSt st.bracketEnd .badChar a false = _
+  rw [hrep.bend]
+  unfold i6Fin
+  cases st.bracketSt <;> simp
+
+
+/-! ### the result, by the way the loop stopped -/
+
+/-- the value reported when the loop is left at a colon that is one too many: the group being read is NOT copied
+    when the address has a "::" -/
+def I6G.valueCut (g : I6G) : List Nat :=
+  if g.two then i6Value g.pre g.post else i6Value (g.pre ++ [g.cur]) []
+
+/-- **the result of IP6Prefix** when the loop stops at position `o` having read the text `g` (`br`: an opening bracket
+    was skipped). One constructor per way of stopping and per verdict. -/
+inductive I6Out (b : Buf) (s : Nat) (br : Bool) (o : Nat) (g : I6G) : Bool × Nat × Err × Array Nat × Bool → Prop
+  /-- end of input after a complete address: Ok, or MoreBytes when the closing bracket is missing -/
+  | eofAcc (hb : b[o]? = none) (hacc : g.Acc) (a : Array Nat) (ha : a.toList = g.value) :
+      I6Out b s br o g (true, o - s, (if br then .moreBytes else .ok), a, false)
+  /-- end of input inside an address: MoreBytes (Bad when nothing was read) -/
+  | eofRej (hb : b[o]? = none) (hacc : ¬ g.Acc) (a : Array Nat) :
+      I6Out b s br o g (false, o - s, (if (g.cur.isEmpty && g.pre.isEmpty) = false then .moreBytes else .bad), a, false)
+  /-- a colon after the maximal number of colons: the address ends before it (BadChar), Bad inside brackets -/
+  | colonMax (hb : b[o]? = some 58) (hacc : g.Acc) (hc : g.colons = if g.two then 8 else 7)
+      (hne : g.two = false → g.cur ≠ []) (a : Array Nat) (ha : a.toList = g.valueCut) :
+      I6Out b s br o g (if br then (false, o - s, .bad, a, false) else (true, o - s, .badChar, a, false))
+  /-- a third colon in a row, or a second "::" -/
+  | colonAgain (hb : b[o]? = some 58) (h2 : g.two = true) (hcur : g.cur = []) (hc : g.colons < 8) :
+      I6Out b s br o g (false, o - s, .bad, Array.replicate 8 0, false)
+  /-- a fifth hex digit after a complete address: MoreValues, Bad inside brackets -/
+  | fifthAcc (c : UInt8) (hb : b[o]? = some c) (hx : I6IsHex c) (h4 : g.cur.length = 4) (hacc : g.Acc) (a : Array Nat)
+      (ha : a.toList = g.value) :
+      I6Out b s br o g (if br then (false, o - s, .bad, a, false) else (true, o - s, .moreValues, a, false))
+  /-- a fifth hex digit inside an address -/
+  | fifthRej (c : UInt8) (hb : b[o]? = some c) (hx : I6IsHex c) (h4 : g.cur.length = 4) (hacc : ¬ g.Acc)
+      (a : Array Nat) : I6Out b s br o g (false, o - s, .bad, a, false)
+  /-- the closing bracket after a complete address: the offset is past it; MoreValues when a byte follows, else Ok -/
+  | closeAcc (hb : b[o]? = some 93) (hbr : br = true) (hacc : g.Acc) (a : Array Nat) (ha : a.toList = g.value) :
+      I6Out b s br o g (true, o + 1 - s, (if o + 1 < b.size then .moreValues else .ok), a, false)
+  /-- the closing bracket inside an address -/
+  | closeRej (hb : b[o]? = some 93) (hbr : br = true) (hacc : ¬ g.Acc) (a : Array Nat) :
+      I6Out b s br o g (false, o - s, .bad, a, false)
+  /-- any other byte after a complete address: BadChar, Bad inside brackets -/
+  | otherAcc (c : UInt8) (hb : b[o]? = some c) (h58 : c ≠ 58) (hx : ¬ I6IsHex c) (h93 : ¬ (br = true ∧ c = 93))
+      (hacc : g.Acc) (a : Array Nat) (ha : a.toList = g.value) :
+      I6Out b s br o g (if br then (false, o - s, .bad, a, false) else (true, o - s, .badChar, a, false))
+  /-- any other byte inside an address -/
+  | otherRej (c : UInt8) (hb : b[o]? = some c) (h58 : c ≠ 58) (hx : ¬ I6IsHex c) (h93 : ¬ (br = true ∧ c = 93))
+      (hacc : ¬ g.Acc) (a : Array Nat) : I6Out b s br o g (false, o - s, .bad, a, false)
+
+theorem i6_outcome (b : Buf) (s o : Nat) {st : IP6St} {g : I6G} (hrep : I6Rep st g) (hh : I6Halt b o st) :
+    I6Out b s st.bracketSt o g (i6Post b s (ip6Loop b o st)) := by
+  cases hb : b[o]? with
+  | none =>
+    rw [i6_loop_none st hb]
+    show I6Out b s st.bracketSt o g (ip6End b s o (i6Bump st))
+    have h := i6_out_nro b s o hrep st.bracketEnd st.err
+    have e : ({ st with bracketEnd := st.bracketEnd, err := st.err } : IP6St) = st := rfl
+    rw [e] at h
+    by_cases hacc : g.Acc
+    · obtain ⟨a, ha, hend⟩ := h.1 hacc
+      rw [hend, hrep.bend, hrep.err]
+      have : i6Fin b s o st.bracketSt false .ok a false =
+          (true, o - s, (if st.bracketSt then .moreBytes else .ok), a, false) := by
+        unfold i6Fin; cases st.bracketSt <;> simp
+      rw [this]
+      exact .eofAcc hb hacc a ha
+    · rw [h.2 hacc, hrep.bend, hrep.err]
+      have := I6Out.eofRej (s := s) (br := st.bracketSt) hb hacc st.a1
+      simpa using this
+  | some c =>
+    obtain ⟨h58, hhex⟩ := hh c hb
+    rw [i6_loop_some st hb]
+    by_cases hc : c = 58
+    · subst hc
+      simp only [beq_self_eq_true, ↓reduceIte]
+      rcases h58 rfl with hgo | hret
+      · rw [if_pos hgo]
+        show I6Out b s st.bracketSt o g (ip6End b s o _)
+        obtain ⟨hacc, hcol, hne, a, ha, hend⟩ := i6_out_goto b s o hrep hgo
+        rw [hend]
+        have := I6Out.colonMax (s := s) (br := st.bracketSt) hb hacc hcol hne a ha
+        cases hbs : st.bracketSt <;> rw [hbs] at this <;> simpa using this
+      · by_cases hgo : (decide (st.colonsNo + 1 > 7) &&
+            (decide (st.colonsNo + 1 > 8) || (!st.use2 && !st.foundColon))) = true
+        · rw [if_pos hgo]
+          show I6Out b s st.bracketSt o g (ip6End b s o _)
+          obtain ⟨hacc, hcol, hne, a, ha, hend⟩ := i6_out_goto b s o hrep hgo
+          rw [hend]
+          have := I6Out.colonMax (s := s) (br := st.bracketSt) hb hacc hcol hne a ha
+          cases hbs : st.bracketSt <;> rw [hbs] at this <;> simpa using this
+        · rw [if_neg hgo]
+          simp only [Bool.and_eq_true] at hret
+          rw [if_pos hret.1, if_pos hret.2]
+          show I6Out b s st.bracketSt o g (false, o - s, .bad, Array.replicate 8 0, false)
+          have ht : g.two = true := by rw [← hrep.use2]; exact hret.2
+          have hcur : g.cur = [] := by
+            have := hrep.fc_two ht
+            rw [hret.1] at this
+            exact List.isEmpty_iff.1 this.symm
+          have hcol : g.colons < 8 := by
+            rw [← hrep.colons]
+            rw [hret.1, hret.2] at hgo
+            simp at hgo
+            have := (hrep.wf.tw ht).2
+            have h2 := hrep.colons
+            unfold I6G.colons at h2
+            rw [ht] at h2
+            simp only [↓reduceIte] at h2
+            omega
+          exact .colonAgain hb ht hcur hcol
+    · have hc' : (c == 58) = false := by simpa using hc
+      rw [hc']
+      simp only [Bool.false_eq_true, ↓reduceIte]
+      by_cases hx : I6IsHex c
+      · have hd := hhex hx
+        rw [if_pos ((i6_hexDig_nonneg c).2 hx), if_pos (by omega)]
+        show I6Out b s st.bracketSt o g (ip6End b s o (i6Bump _))
+        have h4 : g.cur.length = 4 := by
+          have := hrep.wf.cur4.1
+          have := hrep.digits
+          omega
+        have h := i6_out_more b s o hrep hd
+        by_cases hacc : g.Acc
+        · obtain ⟨a, ha, hend⟩ := h.1 hacc
+          rw [hend]
+          have := I6Out.fifthAcc (s := s) (br := st.bracketSt) c hb hx h4 hacc a ha
+          unfold i6Fin
+          cases hbs : st.bracketSt <;> rw [hbs] at this <;> simpa using this
+        · rw [h.2 hacc]
+          exact .fifthRej c hb hx h4 hacc st.a1
+      · rw [if_neg (fun h => hx ((i6_hexDig_nonneg c).1 h))]
+        by_cases h93 : st.bracketSt = true ∧ c = 93
+        · rw [if_pos (by rw [h93.1, h93.2]; rfl)]
+          show I6Out b s st.bracketSt o g (ip6End b s o (i6Bump _))
+          have h := i6_out_nro b s o hrep true st.err
+          have e : ({ st with bracketEnd := true, err := st.err } : IP6St) = { st with bracketEnd := true } := rfl
+          rw [e] at h
+          have hb' : b[o]? = some 93 := by rw [hb, h93.2]
+          by_cases hacc : g.Acc
+          · obtain ⟨a, ha, hend⟩ := h.1 hacc
+            rw [hend, hrep.err, h93.1]
+            have := I6Out.closeAcc (s := s) (br := true) hb' rfl hacc a ha
+            unfold i6Fin
+            simpa using this
+          · rw [h.2 hacc, h93.1]
+            have := I6Out.closeRej (s := s) (br := true) hb' rfl hacc st.a1
+            simpa using this
+        · rw [if_neg (by
+            intro hh
+            simp only [Bool.and_eq_true, beq_iff_eq] at hh
+            exact h93 hh)]
+          show I6Out b s st.bracketSt o g (ip6End b s o (i6Bump _))
+          have h := i6_out_nro b s o hrep st.bracketEnd .badChar
+          have e : ({ st with bracketEnd := st.bracketEnd, err := .badChar } : IP6St) = { st with err := .badChar } := rfl
+          rw [e] at h
+          by_cases hacc : g.Acc
+          · obtain ⟨a, ha, hend⟩ := h.1 hacc
+            rw [hend, hrep.bend]
+            have := I6Out.otherAcc (s := s) c hb hc hx h93 hacc a ha
+            unfold i6Fin
+            cases hbs : st.bracketSt <;> rw [hbs] at this <;> simpa using this
+          · rw [h.2 hacc]
+            have := I6Out.otherRej (s := s) c hb hc hx h93 hacc st.a1
+            simpa using this
+
+
+/-! ### soundness: the scanner's result is the one prescribed for the text it read -/
+
+/-- where the address text starts: after the opening bracket when there is one -/
+def i6Start (b : Buf) (s : Nat) : Nat := if i6Br b s then s + 1 else s
+
+theorem I6G.text_init : ({} : I6G).text = [] := rfl
+
+/-- the scanner stops at `o` having read `g`, stated on the text -/
+def I6Stops (b : Buf) (o : Nat) (g : I6G) : Prop :=
+  ∀ c, b[o]? = some c →
+    (c = 58 → g.colons = (if g.two then 8 else 7) ∧ (g.two = false → g.cur ≠ []) ∨ (g.two = true ∧ g.cur = [])) ∧
+    (I6IsHex c → g.cur.length = 4)
+
+theorem i6_halt_of_stops {b : Buf} {o : Nat} {st : IP6St} {g : I6G} (hrep : I6Rep st g) (h : I6Stops b o g) :
+    I6Halt b o st := by
+  intro c hb
+  obtain ⟨h1, h2⟩ := h c hb
+  refine ⟨fun hc => ?_, fun hx => by rw [hrep.digits, h2 hx]; exact Nat.le_refl _⟩
+  have hcol := hrep.colons
+  rcases h1 hc with ⟨hmax, hne⟩ | ⟨ht, hcur⟩
+  · left
+    rw [hcol, hmax, hrep.use2]
+    by_cases ht : g.two = true
+    · rw [ht]; rfl
+    · have ht : g.two = false := by simpa using ht
+      have hfc : st.foundColon = false := by
+        rw [hrep.fc]
+        cases hcc : g.cur with
+        | nil => exact absurd hcc (hne ht)
+        | cons a as => rfl
+      rw [ht, hfc]; rfl
+  · by_cases hgo : (decide (st.colonsNo + 1 > 7) &&
+        (decide (st.colonsNo + 1 > 8) || (!st.use2 && !st.foundColon))) = true
+    · exact Or.inl hgo
+    · right
+      rw [hrep.fc_two ht, hrep.use2, ht, hcur]; rfl
+
+theorem i6_stops_of_halt {b : Buf} {o : Nat} {st : IP6St} {g : I6G} (hrep : I6Rep st g) (h : I6Halt b o st) :
+    I6Stops b o g := by
+  intro c hb
+  obtain ⟨h1, h2⟩ := h c hb
+  refine ⟨fun hc => ?_, fun hx => ?_⟩
+  · rcases h1 hc with hgo | hret
+    · obtain ⟨_, hcol, hne, _⟩ := i6_out_goto b 0 o hrep hgo
+      exact Or.inl ⟨hcol, hne⟩
+    · simp only [Bool.and_eq_true] at hret
+      have ht : g.two = true := by rw [← hrep.use2]; exact hret.2
+      have := hrep.fc_two ht
+      rw [hret.1] at this
+      exact Or.inr ⟨ht, List.isEmpty_iff.1 this.symm⟩
+  · have := h2 hx
+    have h4 := hrep.wf.cur4.1
+    have := hrep.digits
+    omega
+
+/-- **characterisation of IP6Prefix (soundness)**: the scanner reads a text `g` from the start position up to a position
+    where it stops, and the result is the one `I6Out` prescribes for that position and `g` -/
+theorem i6_prefixAt_char (b : Buf) (s : Nat) :
+    ∃ g : I6G, g.WF ∧ i6Seg b (i6Start b s) (i6Start b s + g.text.length) = g.text ∧
+      I6Stops b (i6Start b s + g.text.length) g ∧
+      I6Out b s (i6Br b s) (i6Start b s + g.text.length) g (ip6PrefixAt b s) := by
+  have h0 := i6_rep_init (i6Br b s)
+  obtain ⟨o, st, g, hrep, hle, htxt, hbs, hloop, hhalt, hlen⟩ :=
+    i6_run b (i6Start b s) _ (i6Start b s) _ _ rfl h0 (Nat.le_refl _) (by rw [i6Seg_self]; rfl) rfl
+  subst hlen
+  refine ⟨g, hrep.wf, htxt, i6_stops_of_halt hrep hhalt, ?_⟩
+  rw [i6_prefixAt_eq]
+  have := i6_outcome b s _ hrep hhalt
+  rw [hbs] at this
+  show I6Out b s (i6Br b s) _ g (i6Post b s (ip6Loop b (i6Start b s) _))
+  rw [hloop]
+  exact this
+
+/-! ### completeness: every text of the grammar is read as such -/
+
+/-- a colon after `g` is read on (neither one too many nor a second "::") -/
+def I6G.colonOk (g : I6G) : Prop :=
+  (g.colons + 1 ≤ 7 ∨ (g.colons + 1 ≤ 8 ∧ (g.two = true ∨ (g.cur.isEmpty && !g.pre.isEmpty) = true))) ∧
+  ¬ ((g.cur.isEmpty && !g.pre.isEmpty) = true ∧ g.two = true)
+
+theorem i6_snoc_cases {α : Type} (l : List α) : l = [] ∨ ∃ l' x, l = l' ++ [x] := by
+  induction l with
+  | nil => exact Or.inl rfl
+  | cons a as ih =>
+    right
+    rcases ih with h | ⟨l', x, h⟩
+    · exact ⟨[], a, by rw [h]; rfl⟩
+    · exact ⟨a :: l', x, by rw [h]; rfl⟩
+
+theorem i6_mem_drop1_of_left {α : Type} {l : List α} {c x : α} (h : x ∈ l.drop 1) : x ∈ (l ++ [c]).drop 1 := by
+  cases l with
+  | nil => simp at h
+  | cons p ps =>
+    simp only [List.cons_append, List.drop_succ_cons, List.drop_zero] at h ⊢
+    exact List.mem_append_left _ h
+
+/-- every text the scanner can have read, other than the empty one, is a shorter one followed by one byte -/
+theorem I6G.pred (g : I6G) (wf : g.WF) (hne : g.text ≠ []) :
+    ∃ (g' : I6G) (c : UInt8), g'.WF ∧ g.text = g'.text ++ [c] ∧
+      ((I6IsHex c ∧ g'.cur.length < 4 ∧ g = g'.hex c) ∨ (c = 58 ∧ g = g'.colon ∧ g'.colonOk)) := by
+  rcases g with ⟨pre, two, post, cur⟩
+  obtain ⟨pre4, preNe, postG, cur4, one, tw⟩ := wf
+  simp only at pre4 preNe postG cur4 one tw
+  rcases i6_snoc_cases cur with hcur | ⟨cur', c, hcur⟩
+  · subst hcur
+    cases two with
+    | true =>
+      have htw := tw rfl
+      rcases i6_snoc_cases post with hpost | ⟨post', x, hpost⟩
+      · subst hpost
+        have hg : (⟨pre, true, [], []⟩ : I6G) = (⟨pre, false, [], []⟩ : I6G).colon := by
+          unfold I6G.colon
+          cases hp : pre with
+          | nil => exact absurd hp htw.1
+          | cons p ps => simp
+        refine ⟨⟨pre, false, [], []⟩, 58, ⟨pre4, preNe, postG, cur4, fun _ => ⟨rfl, ?_⟩, fun h => by cases h⟩, ?_,
+          Or.inr ⟨rfl, hg, ?_⟩⟩
+        · have := htw.2; simp at this; show pre.length ≤ 7; omega
+        · rw [hg]; exact I6G.text_colon _ (fun _ => rfl)
+        · have := htw.2
+          simp at this
+          refine ⟨Or.inr ⟨by unfold I6G.colons; simp; omega, Or.inr ?_⟩, fun h => by cases h.2⟩
+          cases hp : pre with
+          | nil => exact absurd hp htw.1
+          | cons p ps => simp
+      · subst hpost
+        have hx : I6Grp x := postG x (by simp)
+        have hxne : x ≠ [] := by
+          intro h; rw [h] at hx; have := hx.1; simp at this
+        have hg : (⟨pre, true, post' ++ [x], []⟩ : I6G) = (⟨pre, true, post', x⟩ : I6G).colon := by
+          unfold I6G.colon; simp
+        refine ⟨⟨pre, true, post', x⟩, 58,
+          ⟨pre4, preNe, fun y hy => postG y (by simp [hy]), hx.2, (fun h => by cases h), fun _ => ⟨htw.1, ?_⟩⟩, ?_,
+          Or.inr ⟨rfl, hg, ?_⟩⟩
+        · have := htw.2; simp at this; show pre.length + 1 + post'.length ≤ 8; omega
+        · rw [hg]; exact I6G.text_colon _ (fun h => by cases h)
+        · have := htw.2
+          simp at this
+          refine ⟨Or.inr ⟨by unfold I6G.colons; simp; omega, Or.inl rfl⟩, fun h => ?_⟩
+          have h1 := h.1
+          cases hxx : x with
+          | nil => exact hxne hxx
+          | cons a as => rw [hxx] at h1; simp at h1
+    | false =>
+      have hone := one rfl
+      have hpost : post = [] := hone.1
+      subst hpost
+      rcases i6_snoc_cases pre with hpre | ⟨pre', x, hpre⟩
+      · subst hpre
+        exact absurd rfl hne
+      · subst hpre
+        have hx : I6Hex4 x := pre4 x (by simp)
+        have hcond : (x.isEmpty && !pre'.isEmpty) = false := by
+          cases hp : pre' with
+          | nil => simp
+          | cons p ps =>
+            have : x ≠ [] := preNe x (by rw [hp]; simp)
+            cases hxx : x with
+            | nil => exact absurd hxx this
+            | cons a as => simp
+        have hg : (⟨pre' ++ [x], false, [], []⟩ : I6G) = (⟨pre', false, [], x⟩ : I6G).colon := by
+          unfold I6G.colon
+          simp only [Bool.false_eq_true, ↓reduceIte, hcond]
+        refine ⟨⟨pre', false, [], x⟩, 58,
+          ⟨fun y hy => pre4 y (by simp [hy]), fun y hy => preNe y (i6_mem_drop1_of_left hy), postG, hx,
+            fun _ => ⟨rfl, ?_⟩, fun h => by cases h⟩, ?_, Or.inr ⟨rfl, hg, ?_⟩⟩
+        · have := hone.2; simp at this; show pre'.length ≤ 7; omega
+        · rw [hg]; exact I6G.text_colon _ (fun _ => rfl)
+        · have := hone.2
+          simp at this
+          exact ⟨Or.inl (by unfold I6G.colons; simp; omega), fun h => by cases h.2⟩
+  · subst hcur
+    have hc : I6IsHex c := cur4.2 c (by simp)
+    have hl : cur'.length < 4 := by have := cur4.1; simp at this; omega
+    refine ⟨⟨pre, two, post, cur'⟩, c, ⟨pre4, preNe, postG, ⟨by show cur'.length ≤ 4; omega, fun y hy => cur4.2 y (by simp [hy])⟩, one, tw⟩, ?_,
+      Or.inl ⟨hc, hl, rfl⟩⟩
+    exact I6G.text_hex ⟨pre, two, post, cur'⟩ c
+
+
+theorem i6Seg_split {b : Buf} {s n : Nat} {l : List UInt8} {c : UInt8} (hl : l.length = n)
+    (h : i6Seg b s (s + (n + 1)) = l ++ [c]) : i6Seg b s (s + n) = l ∧ b[s + n]? = some c := by
+  unfold i6Seg at h ⊢
+  have e1 : s + (n + 1) - s = n + 1 := by omega
+  have e2 : s + n - s = n := by omega
+  rw [e1] at h
+  rw [e2]
+  constructor
+  · have : ((b.toList.drop s).take (n + 1)).take n = (l ++ [c]).take n := by rw [h]
+    rw [List.take_take, Nat.min_eq_left (Nat.le_succ n)] at this
+    rw [this, ← hl]; simp
+  · have : ((b.toList.drop s).take (n + 1))[n]? = (l ++ [c])[n]? := by rw [h]
+    rw [List.getElem?_take_of_lt (Nat.lt_succ_self n), List.getElem?_drop] at this
+    rw [← hl] at this
+    simp at this
+    rw [hl] at this
+    simpa using this
+
+theorem I6G.text_nil {g : I6G} (wf : g.WF) (h : g.text = []) : g = {} := by
+  rcases g with ⟨pre, two, post, cur⟩
+  cases two with
+  | true => unfold I6G.text at h; simp at h
+  | false =>
+    have hpost : post = [] := (wf.one rfl).1
+    unfold I6G.text at h
+    simp only [Bool.false_eq_true, ↓reduceIte] at h
+    cases pre with
+    | nil =>
+      have hc : cur = [] := h
+      rw [hc, hpost]
+    | cons p ps => simp [i6T] at h
+
+theorem i6_colon_conds {st : IP6St} {g : I6G} (hrep : I6Rep st g) (hok : g.colonOk) :
+    (decide (st.colonsNo + 1 > 7) && (decide (st.colonsNo + 1 > 8) || (!st.use2 && !st.foundColon))) = false ∧
+    (st.foundColon && st.use2) = false := by
+  rw [hrep.colons, hrep.use2, hrep.fc]
+  obtain ⟨h1, h2⟩ := hok
+  constructor
+  · rcases h1 with h1 | ⟨h1, h3⟩
+    · have : decide (g.colons + 1 > 7) = false := by simp; omega
+      rw [this]; rfl
+    · have : decide (g.colons + 1 > 8) = false := by simp; omega
+      rw [this]
+      rcases h3 with h3 | h3
+      · rw [h3]; simp
+      · rw [h3]; simp
+  · cases hf : (g.cur.isEmpty && !g.pre.isEmpty)
+    · rfl
+    · cases ht : g.two
+      · rfl
+      · exact absurd ⟨hf, ht⟩ h2
+
+/-- **every text of the grammar is read as such**: when the bytes from `s0` on are the text of `g`, the loop reaches
+    the position after them in a state that stands for `g` -/
+theorem i6_reach (b : Buf) (s0 : Nat) (br : Bool) : ∀ (n : Nat) (g : I6G), g.text.length = n → g.WF →
+    i6Seg b s0 (s0 + n) = g.text →
+    ∃ st, ip6Loop b s0 { bracketSt := br } = ip6Loop b (s0 + n) st ∧ I6Rep st g ∧ st.bracketSt = br := by
+  intro n
+  induction n with
+  | zero =>
+    intro g hn wf _
+    have := I6G.text_nil wf (List.eq_nil_of_length_eq_zero hn)
+    subst this
+    exact ⟨_, rfl, i6_rep_init br, rfl⟩
+  | succ n ih =>
+    intro g hn wf hseg
+    have hne : g.text ≠ [] := by intro h; rw [h] at hn; cases hn
+    obtain ⟨g', c, wf', htxt, hstep⟩ := g.pred wf hne
+    have hl' : g'.text.length = n := by
+      have := congrArg List.length htxt
+      simp at this; omega
+    rw [htxt] at hseg
+    obtain ⟨hseg', hb⟩ := i6Seg_split hl' hseg
+    obtain ⟨st', hloop, hrep', hbs⟩ := ih g' hl' wf' hseg'
+    rcases hstep with ⟨hx, hl4, hg⟩ | ⟨h58, hg, hok⟩
+    · obtain ⟨st, h1, h2, h3⟩ := i6_step_hex hrep' hb hx hl4
+      exact ⟨st, by rw [hloop, h1]; rfl, by rw [hg]; exact h2, by rw [h3, hbs]⟩
+    · subst h58
+      obtain ⟨hgo, hnr⟩ := i6_colon_conds hrep' hok
+      obtain ⟨st, h1, h2, h3⟩ := i6_step_colon hrep' hb hgo hnr
+      exact ⟨st, by rw [hloop, h1]; rfl, by rw [hg]; exact h2, by rw [h3, hbs]⟩
+
+
+/-- **completeness of IP6Prefix**: whenever the bytes from the start position up to `o` are the text of some `g` of
+    the grammar and the scanner cannot go on at `o`, the result is the one `I6Out` prescribes for `o`, `g` -/
+theorem i6_prefixAt_complete (b : Buf) (s : Nat) (g : I6G) (wf : g.WF)
+    (hseg : i6Seg b (i6Start b s) (i6Start b s + g.text.length) = g.text)
+    (hstop : I6Stops b (i6Start b s + g.text.length) g) :
+    I6Out b s (i6Br b s) (i6Start b s + g.text.length) g (ip6PrefixAt b s) := by
+  obtain ⟨st, hloop, hrep, hbs⟩ := i6_reach b (i6Start b s) (i6Br b s) _ g rfl wf hseg
+  have := i6_outcome b s _ hrep (i6_halt_of_stops hrep hstop)
+  rw [hbs] at this
+  rw [i6_prefixAt_eq]
+  show I6Out b s (i6Br b s) _ g (i6Post b s (ip6Loop b (i6Start b s) _))
+  rw [hloop]
+  exact this
+
+/-- what an accepting result looks like -/
+def I6AccRes (b : Buf) (s : Nat) (br : Bool) (o : Nat) (g : I6G) (r : Bool × Nat × Err × Array Nat × Bool) : Prop :=
+  (b[o]? = none ∧ r.2.1 = o - s ∧ r.2.2.1 = (if br then .moreBytes else .ok) ∧ r.2.2.2.1.toList = g.value) ∨
+  (b[o]? = some 58 ∧ br = false ∧ r.2.1 = o - s ∧ r.2.2.1 = .badChar ∧ r.2.2.2.1.toList = g.valueCut ∧
+    g.colons = (if g.two then 8 else 7) ∧ (g.two = false → g.cur ≠ [])) ∨
+  (∃ c, b[o]? = some c ∧ I6IsHex c ∧ g.cur.length = 4 ∧ br = false ∧ r.2.1 = o - s ∧ r.2.2.1 = .moreValues ∧
+    r.2.2.2.1.toList = g.value) ∨
+  (b[o]? = some 93 ∧ br = true ∧ r.2.1 = o + 1 - s ∧ r.2.2.1 = (if o + 1 < b.size then .moreValues else .ok) ∧
+    r.2.2.2.1.toList = g.value) ∨
+  (∃ c, b[o]? = some c ∧ c ≠ 58 ∧ ¬ I6IsHex c ∧ br = false ∧ r.2.1 = o - s ∧ r.2.2.1 = .badChar ∧
+    r.2.2.2.1.toList = g.value)
+
+theorem I6Out.acc_inv {b : Buf} {s : Nat} {br : Bool} {o : Nat} {g : I6G} {r : Bool × Nat × Err × Array Nat × Bool}
+    (h : I6Out b s br o g r) (hr : r.1 = true) : g.Acc ∧ r.2.2.2.2 = false ∧ I6AccRes b s br o g r := by
+  cases h with
+  | eofAcc hb hacc a ha => exact ⟨hacc, rfl, Or.inl ⟨hb, rfl, rfl, ha⟩⟩
+  | eofRej hb hacc a => cases hr
+  | colonMax hb hacc hc hne a ha =>
+    cases br with
+    | true => cases hr
+    | false => exact ⟨hacc, rfl, Or.inr (Or.inl ⟨hb, rfl, rfl, rfl, ha, hc, hne⟩)⟩
+  | colonAgain hb h2 hcur hc => cases hr
+  | fifthAcc c hb hx h4 hacc a ha =>
+    cases br with
+    | true => cases hr
+    | false => exact ⟨hacc, rfl, Or.inr (Or.inr (Or.inl ⟨c, hb, hx, h4, rfl, rfl, rfl, ha⟩))⟩
+  | fifthRej c hb hx h4 hacc a => cases hr
+  | closeAcc hb hbr hacc a ha => exact ⟨hacc, rfl, Or.inr (Or.inr (Or.inr (Or.inl ⟨hb, hbr, rfl, rfl, ha⟩)))⟩
+  | closeRej hb hbr hacc a => cases hr
+  | otherAcc c hb h58 hx h93 hacc a ha =>
+    cases br with
+    | true => cases hr
+    | false => exact ⟨hacc, rfl, Or.inr (Or.inr (Or.inr (Or.inr ⟨c, hb, h58, hx, rfl, rfl, rfl, ha⟩)))⟩
+  | otherRej c hb h58 hx h93 hacc a => cases hr
+
+/-- what a rejecting result looks like: the offset is the position where the scanner stopped; at the end of input the
+    verdict is MoreBytes (Bad when nothing was read), at a byte it is Bad -/
+theorem I6Out.rej_inv {b : Buf} {s : Nat} {br : Bool} {o : Nat} {g : I6G} {r : Bool × Nat × Err × Array Nat × Bool}
+    (h : I6Out b s br o g r) (hr : r.1 = false) :
+    r.2.1 = o - s ∧ r.2.2.2.2 = false ∧
+    ((b[o]? = none ∧ ¬ g.Acc ∧ r.2.2.1 = (if (g.cur.isEmpty && g.pre.isEmpty) = false then .moreBytes else .bad)) ∨
+     (b[o]? ≠ none ∧ r.2.2.1 = .bad ∧ (g.Acc → br = true ∨ (b[o]? = some 58 ∧ g.two = true ∧ g.cur = [])))) := by
+  cases h with
+  | eofAcc hb hacc a ha => cases hr
+  | eofRej hb hacc a => exact ⟨rfl, rfl, Or.inl ⟨hb, hacc, rfl⟩⟩
+  | colonMax hb hacc hc hne a ha =>
+    cases br with
+    | true => exact ⟨rfl, rfl, Or.inr ⟨by rw [hb]; simp, rfl, fun _ => Or.inl rfl⟩⟩
+    | false => cases hr
+  | colonAgain hb h2 hcur hc => exact ⟨rfl, rfl, Or.inr ⟨by rw [hb]; simp, rfl, fun _ => Or.inr ⟨hb, h2, hcur⟩⟩⟩
+  | fifthAcc c hb hx h4 hacc a ha =>
+    cases br with
+    | true => exact ⟨rfl, rfl, Or.inr ⟨by rw [hb]; simp, rfl, fun _ => Or.inl rfl⟩⟩
+    | false => cases hr
+  | fifthRej c hb hx h4 hacc a => exact ⟨rfl, rfl, Or.inr ⟨by rw [hb]; simp, rfl, fun h => absurd h hacc⟩⟩
+  | closeAcc hb hbr hacc a ha => cases hr
+  | closeRej hb hbr hacc a => exact ⟨rfl, rfl, Or.inr ⟨by rw [hb]; simp, rfl, fun h => absurd h hacc⟩⟩
+  | otherAcc c hb h58 hx h93 hacc a ha =>
+    cases br with
+    | true => exact ⟨rfl, rfl, Or.inr ⟨by rw [hb]; simp, rfl, fun _ => Or.inl rfl⟩⟩
+    | false => cases hr
+  | otherRej c hb h58 hx h93 hacc a => exact ⟨rfl, rfl, Or.inr ⟨by rw [hb]; simp, rfl, fun h => absurd h hacc⟩⟩
+
+/-- **soundness of IP6Prefix**: an accepting result comes with a complete address text `g` read from the start
+    position (after the opening bracket, if any) up to the position where the scanner stopped; offset, verdict
+    and value are those of `I6AccRes` -/
+theorem i6_prefixAt_sound (b : Buf) (s : Nat) (h : (ip6PrefixAt b s).1 = true) :
+    ∃ g : I6G, g.WF ∧ g.Acc ∧ i6Seg b (i6Start b s) (i6Start b s + g.text.length) = g.text ∧
+      I6Stops b (i6Start b s + g.text.length) g ∧ (ip6PrefixAt b s).2.2.2.2 = false ∧
+      I6AccRes b s (i6Br b s) (i6Start b s + g.text.length) g (ip6PrefixAt b s) := by
+  obtain ⟨g, wf, hseg, hstop, hout⟩ := i6_prefixAt_char b s
+  obtain ⟨hacc, hp, hres⟩ := hout.acc_inv h
+  exact ⟨g, wf, hacc, hseg, hstop, hp, hres⟩
+
+/-- the scanner stops after a complete address without rejecting it: a colon only after the maximal number of colons,
+    a hex digit only as a fifth digit -/
+def I6StopsOk (b : Buf) (o : Nat) (g : I6G) : Prop :=
+  ∀ c, b[o]? = some c → (c = 58 → g.colons = (if g.two then 8 else 7)) ∧ (I6IsHex c → g.cur.length = 4)
+
+theorem I6StopsOk.stops {b : Buf} {o : Nat} {g : I6G} (h : I6StopsOk b o g) (hacc : g.Acc) : I6Stops b o g := by
+  intro c hb
+  obtain ⟨h1, h2⟩ := h c hb
+  refine ⟨fun hc => Or.inl ⟨h1 hc, fun ht => ?_⟩, h2⟩
+  rcases hacc with h | h
+  · rw [ht] at h; cases h
+  · exact h.2
+
+/-- **IP6Prefix accepts exactly** the texts that begin (after an opening bracket that is followed by at least one byte)
+    with a complete address text after which the scanner stops without rejecting, and which — inside brackets — is
+    followed by the closing bracket or the end of the input -/
+theorem i6_prefixAt_accepts_iff (b : Buf) (s : Nat) :
+    (ip6PrefixAt b s).1 = true ↔
+      ∃ g : I6G, g.WF ∧ g.Acc ∧ i6Seg b (i6Start b s) (i6Start b s + g.text.length) = g.text ∧
+        I6StopsOk b (i6Start b s + g.text.length) g ∧
+        (i6Br b s = true → b[i6Start b s + g.text.length]? = none ∨ b[i6Start b s + g.text.length]? = some 93) := by
+  constructor
+  · intro h
+    obtain ⟨g, wf, hacc, hseg, hstop, _, hres⟩ := i6_prefixAt_sound b s h
+    refine ⟨g, wf, hacc, hseg, fun c hb => ⟨fun hc => ?_, (hstop c hb).2⟩, fun hbr => ?_⟩
+    · subst hc
+      rcases hres with h1 | h1 | ⟨c, h1, h2, _⟩ | h1 | ⟨c, h1, h2, _⟩
+      · rw [hb] at h1; cases h1.1
+      · exact h1.2.2.2.2.2.1
+      · rw [hb] at h1; cases h1; exact absurd h2 i6_colon_not_hex
+      · rw [hb] at h1; cases h1.1
+      · rw [hb] at h1; cases h1; exact absurd rfl h2
+    · rcases hres with h1 | h1 | ⟨c, _, _, _, h1, _⟩ | h1 | ⟨c, _, _, _, h1, _⟩
+      · exact Or.inl h1.1
+      · rw [hbr] at h1; cases h1.2.1
+      · rw [hbr] at h1; cases h1
+      · exact Or.inr h1.1
+      · rw [hbr] at h1; cases h1
+  · rintro ⟨g, wf, hacc, hseg, hstop, hbr⟩
+    have hout := i6_prefixAt_complete b s g wf hseg (hstop.stops hacc)
+    generalize ip6PrefixAt b s = r at hout
+    cases hbr' : i6Br b s with
+    | false =>
+      rw [hbr'] at hout
+      cases hout with
+      | eofAcc hb hacc a ha => rfl
+      | eofRej hb hacc' a => exact absurd hacc hacc'
+      | colonMax hb hacc hc hne a ha => rfl
+      | colonAgain hb h2 hcur hc =>
+        have := (hstop 58 hb).1 rfl
+        rw [h2] at this
+        simp only [↓reduceIte] at this
+        omega
+      | fifthAcc c hb hx h4 hacc a ha => rfl
+      | fifthRej c hb hx h4 hacc' a => exact absurd hacc hacc'
+      | closeAcc hb hbr hacc a ha => rfl
+      | closeRej hb hbr hacc' a => exact absurd hacc hacc'
+      | otherAcc c hb h58 hx h93 hacc a ha => rfl
+      | otherRej c hb h58 hx h93 hacc' a => exact absurd hacc hacc'
+    | true =>
+      rw [hbr'] at hout
+      have hnx := hbr hbr'
+      cases hout with
+      | eofAcc hb hacc a ha => rfl
+      | eofRej hb hacc' a => exact absurd hacc hacc'
+      | colonMax hb hacc hc hne a ha => rcases hnx with h | h <;> rw [hb] at h <;> cases h
+      | colonAgain hb h2 hcur hc => rcases hnx with h | h <;> rw [hb] at h <;> cases h
+      | fifthAcc c hb hx h4 hacc a ha =>
+        rcases hnx with h | h <;> rw [hb] at h <;> cases h
+        exact absurd hx (by decide)
+      | fifthRej c hb hx h4 hacc' a => exact absurd hacc hacc'
+      | closeAcc hb hbr hacc a ha => rfl
+      | closeRej hb hbr hacc' a => exact absurd hacc hacc'
+      | otherAcc c hb h58 hx h93 hacc a ha =>
+        rcases hnx with h | h <;> rw [hb] at h <;> cases h
+        exact absurd ⟨rfl, rfl⟩ h93
+      | otherRej c hb h58 hx h93 hacc' a => exact absurd hacc hacc'
+
+
+/-! ### the usual notation -/
+
+/-- groups separated by single colons -/
+def i6Join : List (List UInt8) → List UInt8
+  | [] => []
+  | [g] => g
+  | g :: g' :: gs => g ++ 58 :: i6Join (g' :: gs)
+
+theorem i6Join_snoc (gs : List (List UInt8)) (x : List UInt8) : i6Join (gs ++ [x]) = i6T gs x := by
+  induction gs with
+  | nil => rfl
+  | cons g gs ih =>
+    cases gs with
+    | nil => rfl
+    | cons g' gs' =>
+      show g ++ 58 :: i6Join (g' :: gs' ++ [x]) = g ++ 58 :: i6T (g' :: gs') x
+      rw [ih]
+
+theorem i6T_nil_eq (gs : List (List UInt8)) (h : gs ≠ []) : i6T gs [] = i6Join gs ++ [58] := by
+  rcases i6_snoc_cases gs with h' | ⟨gs', x, h'⟩
+  · exact absurd h' h
+  · rw [h', ← i6T_close, i6Join_snoc]
+
+/-- **address texts in the usual notation, as far as the code accepts them, with their value**: eight groups of one
+    to four hex digits separated by colons, or groups — "::" — groups with at most seven groups on either side and at
+    most eight in all (with eight groups written the "::" stands for no group at all: the code accepts that) -/
+inductive I6Addr : List UInt8 → List Nat → Prop
+  | full (gs : List (List UInt8)) (h8 : gs.length = 8) (hg : ∀ x ∈ gs, I6Grp x) : I6Addr (i6Join gs) (gs.map i6Val)
+  | compressed (pre post : List (List UInt8)) (hpre : ∀ x ∈ pre, I6Grp x) (hpost : ∀ x ∈ post, I6Grp x)
+      (h1 : pre.length ≤ 7) (h2 : post.length ≤ 7) (h8 : pre.length + post.length ≤ 8) :
+      I6Addr (i6Join pre ++ 58 :: 58 :: i6Join post) (i6Value pre post)
+
+theorem I6Grp.ne_nil {x : List UInt8} (h : I6Grp x) : x ≠ [] := by
+  intro hx; rw [hx] at h; have := h.1; simp at this
+
+theorem i6Value_lead (post : List (List UInt8)) (h : post.length ≤ 7) : i6Value [[]] post = i6Value [] post := by
+  unfold i6Value
+  simp only [List.map_cons, List.map_nil, List.length_cons, List.length_nil, i6Val_nil, Nat.zero_add, Nat.sub_zero,
+    List.nil_append, List.cons_append]
+  have : 8 - post.length = (8 - 1 - post.length) + 1 := by omega
+  rw [this, List.replicate_succ]
+  rfl
+
+/-- the text starts with a single colon (an empty first group) -/
+def I6G.Lead (g : I6G) : Prop := g.pre.head? = some [] ∧ (g.two = false ∨ 2 ≤ g.pre.length)
+
+/-- the text ends with a single colon after a group that follows the "::" -/
+def I6G.Trail (g : I6G) : Prop := g.two = true ∧ g.cur = [] ∧ g.post ≠ []
+
+/-- every address of the usual notation is a complete text of the scanner's grammar, with the same value, without
+    a leading or trailing single colon -/
+theorem I6Addr.toG {l : List UInt8} {v : List Nat} (h : I6Addr l v) :
+    ∃ g : I6G, g.WF ∧ g.Acc ∧ g.text = l ∧ g.value = v ∧ ¬ g.Lead ∧ ¬ g.Trail := by
+  cases h with
+  | full gs h8 hg =>
+    rcases i6_snoc_cases gs with h' | ⟨gs', x, h'⟩
+    · rw [h'] at h8; cases h8
+    · subst h'
+      have hl : gs'.length = 7 := by simp at h8; omega
+      have hx : I6Grp x := hg x (by simp)
+      refine ⟨⟨gs', false, [], x⟩, ⟨fun y hy => (hg y (by simp [hy])).2, fun y hy => ?_, (fun y hy => by cases hy), hx.2,
+        (fun _ => ⟨rfl, by show gs'.length ≤ 7; omega⟩), (fun h => by cases h)⟩, Or.inr ⟨hl, hx.ne_nil⟩, ?_, ?_, ?_, ?_⟩
+      · exact (hg y (by simp [List.mem_of_mem_drop hy])).ne_nil
+      · show i6T gs' x = _
+        rw [i6Join_snoc]
+      · show i6Value (gs' ++ [x]) [] = _
+        unfold i6Value
+        simp [h8]
+      · rintro ⟨h1, _⟩
+        cases hgs : gs' with
+        | nil => rw [hgs] at hl; cases hl
+        | cons p ps =>
+          have h1' : (p :: ps).head? = some [] := by rw [← hgs]; exact h1
+          simp at h1'
+          exact (hg p (by simp [hgs])).ne_nil h1'
+      · rintro ⟨h1, _⟩; cases h1
+  | compressed pre post hpre hpost h1 h2 h8 =>
+    -- the groups before "::" as the scanner sees them
+    have hpre' : ∃ pre' : List (List UInt8), pre' ≠ [] ∧ i6T pre' [] = i6Join pre ++ [58] ∧
+        i6Value pre' post = i6Value pre post ∧ (∀ y ∈ pre', I6Hex4 y) ∧ (∀ y ∈ pre'.drop 1, y ≠ []) ∧
+        pre'.length = max pre.length 1 ∧ ¬ (pre'.head? = some [] ∧ 2 ≤ pre'.length) := by
+      cases hp : pre with
+      | nil =>
+        refine ⟨[[]], by simp, rfl, i6Value_lead post h2, ?_, ?_, rfl, ?_⟩
+        · intro y hy; rw [List.mem_singleton.1 hy]; exact I6Hex4_nil
+        · intro y hy; cases hy
+        · rintro ⟨_, h⟩; simp at h
+      | cons p ps =>
+        refine ⟨p :: ps, by simp, i6T_nil_eq _ (by simp), rfl, fun y hy => (hpre y (by rw [hp]; exact hy)).2,
+          fun y hy => (hpre y (by rw [hp]; exact List.mem_of_mem_drop hy)).ne_nil, by simp, ?_⟩
+        rintro ⟨h, _⟩
+        simp at h
+        exact (hpre p (by rw [hp]; simp)).ne_nil h
+    obtain ⟨pre', hne, htxt, hval, h4, hnn, hlen, hlead⟩ := hpre'
+    have hlen' : pre'.length ≤ 7 ∧ (pre.length ≤ pre'.length) ∧ (pre = [] → pre'.length = 1) ∧
+        (pre ≠ [] → pre'.length = pre.length) := by
+      refine ⟨by omega, by omega, fun h => by rw [h] at hlen; exact hlen, fun h => ?_⟩
+      have : pre.length ≠ 0 := fun hh => h (List.eq_nil_of_length_eq_zero hh)
+      omega
+    rcases i6_snoc_cases post with hpo | ⟨post', x, hpo⟩
+    · subst hpo
+      refine ⟨⟨pre', true, [], []⟩, ⟨h4, hnn, (fun y hy => by cases hy), I6Hex4_nil, (fun h => by cases h),
+        (fun _ => ⟨hne, by show pre'.length + 1 + 0 ≤ 8; omega⟩)⟩, Or.inl rfl, ?_, ?_, ?_, ?_⟩
+      · show i6T pre' [] ++ 58 :: i6T [] [] = _
+        rw [htxt]; simp [i6T, i6Join]
+      · show i6Value pre' (I6G.tail ⟨pre', true, [], []⟩) = _
+        exact hval
+      · rintro ⟨h, h'⟩
+        rcases h' with h' | h'
+        · cases h'
+        · exact hlead ⟨h, h'⟩
+      · rintro ⟨_, _, h⟩; exact h rfl
+    · subst hpo
+      have hx : I6Grp x := hpost x (by simp)
+      have hpl : post'.length + 1 = (post' ++ [x]).length := by simp
+      refine ⟨⟨pre', true, post', x⟩, ⟨h4, hnn, (fun y hy => hpost y (by simp [hy])), hx.2, (fun h => by cases h),
+        (fun _ => ⟨hne, ?_⟩)⟩, Or.inl rfl, ?_, ?_, ?_, ?_⟩
+      · show pre'.length + 1 + post'.length ≤ 8
+        by_cases hp : pre = []
+        · have := hlen'.2.2.1 hp; omega
+        · have := hlen'.2.2.2 hp; omega
+      · show i6T pre' [] ++ 58 :: i6T post' x = _
+        rw [htxt, i6Join_snoc]; simp
+      · show i6Value pre' (I6G.tail ⟨pre', true, post', x⟩) = _
+        have : I6G.tail ⟨pre', true, post', x⟩ = post' ++ [x] := by
+          unfold I6G.tail
+          cases hxx : x with
+          | nil => exact absurd hxx hx.ne_nil
+          | cons a as => rfl
+        rw [this]; exact hval
+      · rintro ⟨h, h'⟩
+        rcases h' with h' | h'
+        · cases h'
+        · exact hlead ⟨h, h'⟩
+      · rintro ⟨_, h, _⟩; exact hx.ne_nil h
+
+
+/-- conversely: a complete text of the scanner's grammar that has neither a leading nor a trailing single colon is an
+    address of the usual notation, with the same value. So the texts accepted beyond the usual notation are exactly
+    those with a single colon in front (read as an empty first group of value 0) or a single colon at the end of the
+    part after "::" (ignored). -/
+theorem I6G.toAddr (g : I6G) (wf : g.WF) (hacc : g.Acc) (hl : ¬ g.Lead) (ht : ¬ g.Trail) : I6Addr g.text g.value := by
+  rcases g with ⟨pre, two, post, cur⟩
+  obtain ⟨pre4, preNe, postG, cur4, one, tw⟩ := wf
+  simp only at pre4 preNe postG cur4 one tw
+  cases two with
+  | false =>
+    have h7 : pre.length = 7 ∧ cur ≠ [] := by
+      rcases hacc with h | h
+      · cases h
+      · exact h
+    have hgrp : ∀ x ∈ pre ++ [cur], I6Grp x := by
+      intro x hx
+      rcases List.mem_append.1 hx with hx | hx
+      · refine ⟨?_, pre4 x hx⟩
+        have hne : x ≠ [] := by
+          cases hp : pre with
+          | nil => rw [hp] at hx; cases hx
+          | cons p ps =>
+            rw [hp] at hx
+            rcases List.mem_cons.1 hx with hx | hx
+            · intro hxe
+              apply hl
+              refine ⟨?_, Or.inl rfl⟩
+              show pre.head? = some []
+              rw [hp, ← hxe, hx]; rfl
+            · exact preNe x (by rw [hp]; exact hx)
+        cases hxx : x with
+        | nil => exact absurd hxx hne
+        | cons a as => simp
+      · rw [List.mem_singleton.1 hx]
+        refine ⟨?_, cur4⟩
+        cases hc : cur with
+        | nil => exact absurd hc h7.2
+        | cons a as => simp
+    have h8 : (pre ++ [cur]).length = 8 := by simp; omega
+    have e1 : (⟨pre, false, post, cur⟩ : I6G).text = i6Join (pre ++ [cur]) := by
+      rw [i6Join_snoc]; rfl
+    have e2 : (⟨pre, false, post, cur⟩ : I6G).value = (pre ++ [cur]).map i6Val := by
+      show i6Value (pre ++ [cur]) [] = _
+      unfold i6Value
+      simp [h8]
+    rw [e1, e2]
+    exact .full _ h8 hgrp
+  | true =>
+    have htw := tw rfl
+    -- the groups after "::"
+    have hpost : ∃ npost : List (List UInt8), I6G.tail ⟨pre, true, post, cur⟩ = npost ∧ i6T post cur = i6Join npost ∧
+        (∀ x ∈ npost, I6Grp x) ∧ npost.length ≤ post.length + 1 := by
+      cases hc : cur with
+      | nil =>
+        have hp : post = [] := by
+          cases hpp : post with
+          | nil => rfl
+          | cons q qs => exact absurd ⟨rfl, hc, by rw [hpp]; simp⟩ ht
+        refine ⟨[], ?_, ?_, (fun x hx => by cases hx), by simp⟩
+        · rw [hp]; rfl
+        · rw [hp]; rfl
+      | cons a as =>
+        refine ⟨post ++ [a :: as], rfl, (i6Join_snoc _ _).symm, ?_, by simp⟩
+        intro x hx
+        rcases List.mem_append.1 hx with hx | hx
+        · exact postG x hx
+        · rw [List.mem_singleton.1 hx]
+          exact ⟨by simp, by rw [← hc]; exact cur4⟩
+    obtain ⟨npost, htail, hjoin, hgp, hlp⟩ := hpost
+    have hpre : ∃ npre : List (List UInt8), i6T pre [] = i6Join npre ++ [58] ∧ i6Value pre npost = i6Value npre npost ∧
+        (∀ x ∈ npre, I6Grp x) ∧ npre.length ≤ pre.length := by
+      cases hp : pre with
+      | nil => exact absurd hp htw.1
+      | cons p ps =>
+        by_cases hpe : p = []
+        · have hps : ps = [] := by
+            cases hpp : ps with
+            | nil => rfl
+            | cons q qs =>
+              exfalso; apply hl
+              refine ⟨?_, Or.inr ?_⟩
+              · show pre.head? = some []
+                rw [hp, hpe]; rfl
+              · show 2 ≤ pre.length
+                rw [hp, hpp]; simp
+          subst hpe; subst hps
+          refine ⟨[], rfl, i6Value_lead npost ?_, (fun x hx => by cases hx), by simp⟩
+          have := htw.2
+          rw [hp] at this
+          simp at this
+          omega
+        · refine ⟨p :: ps, i6T_nil_eq _ (by simp), rfl, ?_, Nat.le_refl _⟩
+          intro x hx
+          have h4 : I6Hex4 x := pre4 x (by rw [hp]; exact hx)
+          refine ⟨?_, h4⟩
+          have hne : x ≠ [] := by
+            rcases List.mem_cons.1 hx with hx | hx
+            · rw [hx]; exact hpe
+            · exact preNe x (by rw [hp]; exact hx)
+          cases hxx : x with
+          | nil => exact absurd hxx hne
+          | cons a as => simp
+    obtain ⟨npre, hpt, hpv, hgpre, hlpre⟩ := hpre
+    have e1 : (⟨pre, true, post, cur⟩ : I6G).text = i6Join npre ++ 58 :: 58 :: i6Join npost := by
+      show i6T pre [] ++ 58 :: i6T post cur = _
+      rw [hpt, hjoin]; simp
+    have e2 : (⟨pre, true, post, cur⟩ : I6G).value = i6Value npre npost := by
+      show i6Value pre (I6G.tail ⟨pre, true, post, cur⟩) = _
+      rw [htail, hpv]
+    rw [e1, e2]
+    have := htw.2
+    have hp1 : 1 ≤ pre.length := by
+      cases hp : pre with
+      | nil => exact absurd hp htw.1
+      | cons p ps => simp
+    exact .compressed npre npost hgpre hgp (by omega) (by omega) (by omega)
+
+
+/-! ### addresses of the usual notation: accepted with their value -/
+
+theorem i6Seg_of_drop {b : Buf} {s : Nat} {l rest : List UInt8} (h : b.toList.drop s = l ++ rest) :
+    i6Seg b s (s + l.length) = l ∧ b[s + l.length]? = rest.head? := by
+  constructor
+  · unfold i6Seg
+    rw [h, Nat.add_sub_cancel_left]; simp
+  · have : (b.toList.drop s)[l.length]? = (l ++ rest)[l.length]? := by rw [h]
+    rw [List.getElem?_drop] at this
+    rw [List.getElem?_append_right (Nat.le_refl _), Nat.sub_self] at this
+    rw [List.head?_eq_getElem?, ← this]; simp
+
+theorem i6T_bytes (gs : List (List UInt8)) (cur : List UInt8) (hg : ∀ x ∈ gs, I6Hex4 x) (hc : I6Hex4 cur) :
+    ∀ c ∈ i6T gs cur, c = 58 ∨ I6IsHex c := by
+  induction gs with
+  | nil => intro c h; exact Or.inr (hc.2 c h)
+  | cons g gs ih =>
+    intro c h
+    simp only [i6T, List.mem_append, List.mem_cons] at h
+    rcases h with h | h | h
+    · exact Or.inr ((hg g (by simp)).2 c h)
+    · exact Or.inl h
+    · exact ih (fun x hx => hg x (by simp [hx])) c h
+
+/-- the text of the grammar consists of colons and hex digits -/
+theorem I6G.text_bytes {g : I6G} (wf : g.WF) : ∀ c ∈ g.text, c = 58 ∨ I6IsHex c := by
+  intro c h
+  unfold I6G.text at h
+  by_cases ht : g.two = true
+  · rw [if_pos ht] at h
+    simp only [List.mem_append, List.mem_cons] at h
+    rcases h with h | h | h
+    · exact i6T_bytes _ _ wf.pre4 I6Hex4_nil c h
+    · exact Or.inl h
+    · exact i6T_bytes _ _ (fun x hx => (wf.postG x hx).2) wf.cur4 c h
+  · rw [if_neg ht] at h
+    exact i6T_bytes _ _ wf.pre4 wf.cur4 c h
+
+theorem I6G.Acc.text_ne {g : I6G} (h : g.Acc) (wf : g.WF) : g.text ≠ [] := by
+  intro ht
+  have := I6G.text_nil wf ht
+  subst this
+  rcases h with h | h
+  · cases h
+  · exact h.2 rfl
+
+/-- no bracket is skipped in front of a text of the grammar -/
+theorem i6Br_of_text {b : Buf} {s : Nat} {g : I6G} {rest : List UInt8} (wf : g.WF) (hacc : g.Acc)
+    (hd : b.toList.drop s = g.text ++ rest) : i6Br b s = false := by
+  have hne := hacc.text_ne wf
+  cases ht : g.text with
+  | nil => exact absurd ht hne
+  | cons c t =>
+    have hc : c = 58 ∨ I6IsHex c := g.text_bytes wf c (by rw [ht]; simp)
+    have hb : b[s]? = some c := by
+      have := (i6Seg_of_drop (l := []) (rest := g.text ++ rest) (by simpa using hd)).2
+      rw [ht] at this
+      simpa using this
+    unfold i6Br
+    rw [hb]
+    have h91 : (c == 91) = false := by
+      rcases hc with hc | hc
+      · rw [hc]; rfl
+      · cases h : c == 91
+        · rfl
+        · rw [beq_iff_eq] at h; subst h; exact absurd hc (by decide)
+    split
+    · rename_i c0 _ h1 _
+      cases h1; exact h91
+    · rfl
+
+/-- **completeness for the usual notation**: an address followed by the end of the input is accepted with verdict Ok,
+    followed by a byte that is neither a hex digit nor a colon with verdict BadChar; the offset is the length of the
+    address and the words are its value -/
+theorem i6_prefixAt_addr (b : Buf) (s : Nat) {l rest : List UInt8} {v : List Nat} (h : I6Addr l v)
+    (hd : b.toList.drop s = l ++ rest) (hrest : ∀ c ∈ rest.head?, c ≠ 58 ∧ ¬ I6IsHex c) :
+    ∃ a, a.toList = v ∧
+      ip6PrefixAt b s = (true, l.length, (if rest = [] then .ok else .badChar), a, false) := by
+  obtain ⟨g, wf, hacc, htxt, hval, _, _⟩ := h.toG
+  subst htxt; subst hval
+  have hbr := i6Br_of_text wf hacc hd
+  have hst : i6Start b s = s := by unfold i6Start; rw [hbr]; rfl
+  obtain ⟨hseg, hnx⟩ := i6Seg_of_drop hd
+  have hstop : I6Stops b (s + g.text.length) g := by
+    intro c hb
+    rw [hnx] at hb
+    have := hrest c (by rw [hb]; simp)
+    exact ⟨fun h => absurd h this.1, fun h => absurd h this.2⟩
+  have hout := i6_prefixAt_complete b s g wf (by rw [hst]; exact hseg) (by rw [hst]; exact hstop)
+  rw [hst, hbr] at hout
+  generalize ip6PrefixAt b s = r at hout
+  have hoff : s + g.text.length - s = g.text.length := by omega
+  cases hout with
+  | eofAcc hb hacc a ha =>
+    rw [hnx] at hb
+    have : rest = [] := by cases rest with
+      | nil => rfl
+      | cons c t => cases hb
+    exact ⟨a, ha, by rw [hoff, if_pos this]; rfl⟩
+  | eofRej hb hacc' a => exact absurd hacc hacc'
+  | colonMax hb hacc hc hne a ha =>
+    rw [hnx] at hb
+    exact absurd rfl (hrest 58 (by rw [hb]; simp)).1
+  | colonAgain hb h2 hcur hc =>
+    rw [hnx] at hb
+    exact absurd rfl (hrest 58 (by rw [hb]; simp)).1
+  | fifthAcc c hb hx h4 hacc a ha =>
+    rw [hnx] at hb
+    exact absurd hx (hrest c (by rw [hb]; simp)).2
+  | fifthRej c hb hx h4 hacc' a => exact absurd hacc hacc'
+  | closeAcc hb hbr' hacc a ha => cases hbr'
+  | closeRej hb hbr' hacc' a => cases hbr'
+  | otherAcc c hb h58 hx h93 hacc a ha =>
+    rw [hnx] at hb
+    have : rest ≠ [] := by intro h; rw [h] at hb; cases hb
+    exact ⟨a, ha, by rw [hoff, if_neg this]; rfl⟩
+  | otherRej c hb h58 hx h93 hacc' a => exact absurd hacc hacc'
+
+
+theorem i6Br_of_bracket {b : Buf} {s : Nat} {c : UInt8} {t : List UInt8} (hd : b.toList.drop s = 91 :: c :: t) :
+    i6Br b s = true := by
+  have h0 : b[s]? = some 91 := by
+    have := (i6Seg_of_drop (l := []) (rest := 91 :: c :: t) (by simpa using hd)).2
+    simpa using this
+  have h1 : b[s + 1]? = some c := by
+    have := (i6Seg_of_drop (l := [91]) (rest := c :: t) (by simpa using hd)).2
+    simpa using this
+  unfold i6Br
+  rw [h0, h1]
+  rfl
+
+/-- **addresses in brackets**: `[` address `]` is accepted, the offset is past the closing bracket and the verdict
+    is Ok at the end of the input, MoreValues when a byte follows; `[` address at the end of the input (closing
+    bracket missing) is ALSO accepted, with verdict MoreBytes and the offset at the end -/
+theorem i6_prefixAt_bracketed (b : Buf) (s : Nat) {l rest : List UInt8} {v : List Nat} (h : I6Addr l v)
+    (hd : b.toList.drop s = 91 :: l ++ rest) (hrest : rest = [] ∨ ∃ t, rest = 93 :: t) :
+    ∃ a, a.toList = v ∧
+      ip6PrefixAt b s = (if rest = [] then (true, l.length + 1, .moreBytes, a, false)
+        else (true, l.length + 2, (if rest = [93] then .ok else .moreValues), a, false)) := by
+  obtain ⟨g, wf, hacc, htxt, hval, _, _⟩ := h.toG
+  subst htxt; subst hval
+  have hne := hacc.text_ne wf
+  have hbr : i6Br b s = true := by
+    cases ht : g.text with
+    | nil => exact absurd ht hne
+    | cons c t => rw [ht] at hd; exact i6Br_of_bracket hd
+  have hst : i6Start b s = s + 1 := by unfold i6Start; rw [hbr]; rfl
+  have hd1 : b.toList.drop (s + 1) = g.text ++ rest := by
+    have := congrArg (List.drop 1) hd
+    rw [List.drop_drop] at this
+    simpa [Nat.add_comm] using this
+  obtain ⟨hseg, hnx⟩ := i6Seg_of_drop hd1
+  have hstop : I6Stops b (s + 1 + g.text.length) g := by
+    intro c hb
+    rw [hnx] at hb
+    rcases hrest with hr | ⟨t, hr⟩
+    · rw [hr] at hb; cases hb
+    · rw [hr] at hb
+      simp at hb
+      subst hb
+      exact ⟨(fun h => by cases h), fun h => absurd h (by decide)⟩
+  have hout := i6_prefixAt_complete b s g wf (by rw [hst]; exact hseg) (by rw [hst]; exact hstop)
+  rw [hst, hbr] at hout
+  generalize ip6PrefixAt b s = r at hout
+  have hsz : b.size - s = 1 + g.text.length + rest.length := by
+    have := congrArg List.length hd
+    simp at this
+    omega
+  have hlt : s < b.size := by
+    have := congrArg List.length hd
+    simp at this
+    omega
+  cases hout with
+  | eofAcc hb hacc a ha =>
+    rw [hnx] at hb
+    have hr : rest = [] := by cases rest with
+      | nil => rfl
+      | cons c t => cases hb
+    refine ⟨a, ha, ?_⟩
+    rw [if_pos hr]
+    have : s + 1 + g.text.length - s = g.text.length + 1 := by omega
+    rw [this]; rfl
+  | eofRej hb hacc' a => exact absurd hacc hacc'
+  | colonMax hb hacc hc hne a ha =>
+    rw [hnx] at hb
+    rcases hrest with hr | ⟨t, hr⟩ <;> rw [hr] at hb <;> cases hb
+  | colonAgain hb h2 hcur hc =>
+    rw [hnx] at hb
+    rcases hrest with hr | ⟨t, hr⟩ <;> rw [hr] at hb <;> cases hb
+  | fifthAcc c hb hx h4 hacc a ha =>
+    rw [hnx] at hb
+    rcases hrest with hr | ⟨t, hr⟩ <;> rw [hr] at hb <;> cases hb
+    exact absurd hx (by decide)
+  | fifthRej c hb hx h4 hacc' a => exact absurd hacc hacc'
+  | closeAcc hb hbr' hacc a ha =>
+    rw [hnx] at hb
+    rcases hrest with hr | ⟨t, hr⟩
+    · rw [hr] at hb; cases hb
+    · refine ⟨a, ha, ?_⟩
+      have hrne : rest ≠ [] := by rw [hr]; simp
+      rw [if_neg hrne]
+      have e1 : s + 1 + g.text.length + 1 - s = g.text.length + 2 := by omega
+      rw [e1]
+      have hlen : rest.length = t.length + 1 := by rw [hr]; simp
+      by_cases ht : t = []
+      · have : rest = [93] := by rw [hr, ht]
+        rw [if_pos this, if_neg (by rw [hlen, ht] at hsz; simp at hsz; omega)]
+      · have : rest ≠ [93] := by rw [hr]; simp [ht]
+        have htl : 0 < t.length := List.length_pos_iff.2 ht
+        rw [if_neg this, if_pos (by omega)]
+  | closeRej hb hbr' hacc' a => exact absurd hacc hacc'
+  | otherAcc c hb h58 hx h93 hacc a ha =>
+    rw [hnx] at hb
+    rcases hrest with hr | ⟨t, hr⟩ <;> rw [hr] at hb <;> cases hb
+    exact absurd ⟨rfl, rfl⟩ h93
+  | otherRej c hb h58 hx h93 hacc' a => exact absurd hacc hacc'
+
+
+/-! ### ContainsIP6 -/
+
+/-- IP6Prefix never gives the "Go would panic" indication (also proved, differently, in `SafeRest`) -/
+theorem i6_prefixAt_nopanic (b : Buf) (s : Nat) : (ip6PrefixAt b s).2.2.2.2 = false := by
+  obtain ⟨g, _, _, _, hout⟩ := i6_prefixAt_char b s
+  generalize ip6PrefixAt b s = r at hout
+  cases hout <;> first | rfl | (cases i6Br b s <;> rfl)
+
+theorem i6_try_some (b : Buf) (o d : Nat) {r : Nat × Nat × Array Nat × Bool} (h : containsIP6Try b o d = some r) :
+    o ≤ r.1 ∧ r.1 < d ∧ r.2.2.2 = false ∧ (∃ e, ip6PrefixAt b r.1 = (true, r.2.1, e, r.2.2.1, false)) ∧
+    ∀ k, o ≤ k → k < r.1 → (ip6PrefixAt b k).1 = false := by
+  fun_induction containsIP6Try b o d with
+  | case1 o hlt nxt e a p hp =>
+    cases h
+    have hpn := i6_prefixAt_nopanic b o
+    rw [hp] at hpn
+    have hpn : p = false := hpn
+    subst hpn
+    exact ⟨Nat.le_refl _, hlt, rfl, ⟨e, hp⟩, fun k h1 h2 => by omega⟩
+  | case2 o hlt x1 x2 x3 hp =>
+    have hpn := i6_prefixAt_nopanic b o
+    rw [hp] at hpn
+    cases hpn
+  | case3 o hlt hn1 hn2 ih =>
+    obtain ⟨h1, h2, h3, h4, h5⟩ := ih h
+    refine ⟨by omega, h2, h3, h4, fun k hk1 hk2 => ?_⟩
+    rcases Nat.eq_or_lt_of_le hk1 with rfl | hk1'
+    · rcases hq : ip6PrefixAt b o with ⟨ok, n1, e1, a1, p1⟩
+      cases ok with
+      | false => rfl
+      | true => exact absurd hq (hn1 n1 e1 a1 p1)
+    · exact h5 k (by omega) hk2
+  | case4 o hlt => cases h
+
+theorem i6_try_none (b : Buf) (o d : Nat) (h : containsIP6Try b o d = none) :
+    ∀ k, o ≤ k → k < d → (ip6PrefixAt b k).1 = false := by
+  fun_induction containsIP6Try b o d with
+  | case1 o hlt nxt e a p hp => cases h
+  | case2 o hlt x1 x2 x3 hp => cases h
+  | case3 o hlt hn1 hn2 ih =>
+    intro k hk1 hk2
+    rcases Nat.eq_or_lt_of_le hk1 with rfl | hk1'
+    · rcases hq : ip6PrefixAt b o with ⟨ok, n1, e1, a1, p1⟩
+      cases ok with
+      | false => rfl
+      | true => exact absurd hq (hn1 n1 e1 a1 p1)
+    · exact ih h k (by omega) hk2
+  | case4 o hlt => intro k h1 h2; omega
+
+/-- the positions ContainsIP6 tries for the colon at `d` when the search was (re)started at `i`: the five positions
+    before the colon when there are five, else those from `i` on -/
+def I6Tried (i d k : Nat) : Prop := k < d ∧ (if 5 ≤ d then d ≤ k + 5 else i ≤ k)
+
+/-- **ContainsIP6, soundness**: the reported span starts at most five bytes before a colon, IP6Prefix accepts there
+    with the reported length and words (so `i6_prefixAt_sound` applies), and no panic is indicated -/
+theorem i6_containsLoop_sound (b : Buf) (i : Nat) {o n : Nat} {a : Array Nat} {p : Bool}
+    (h : containsIP6Loop b i = some (o, n, a, p)) :
+    p = false ∧ (∃ e, ip6PrefixAt b o = (true, n, e, a, false)) ∧
+    ∃ d, b[d]? = some 58 ∧ o < d ∧ d ≤ o + 5 := by
+  fun_induction containsIP6Loop b i with
+  | case1 i hlt hidx => cases h
+  | case2 i hlt dOffs hidx offs r htry =>
+    cases h
+    obtain ⟨h1, h2, h3, h4, _⟩ := i6_try_some b offs dOffs htry
+    obtain ⟨hd1, hd2, _⟩ := indexByteFrom_some b i 58 hidx
+    refine ⟨h3, h4, dOffs, hd2, h2, ?_⟩
+    have h1' : offs ≤ o := h1
+    by_cases h5 : dOffs ≥ 5
+    · have : offs = dOffs - 5 := by show (if h : dOffs ≥ 5 then dOffs - 5 else i) = _; rw [dif_pos h5]
+      omega
+    · have h2' : o < dOffs := h2
+      omega
+  | case3 i hlt dOffs hidx offs htry hg ih => exact ih h
+  | case4 i hlt dOffs hidx offs htry hg => cases h
+  | case5 i hlt => cases h
+
+/-- **ContainsIP6, completeness in the form the code supports**: when nothing is reported, IP6Prefix rejects at every
+    position tried — for every colon at `d ≥ i`: the five positions before it when `d ≥ 5`, else the positions before
+    it back to the previous colon (or to `i`) -/
+theorem i6_containsLoop_none (b : Buf) (i : Nat) (h : containsIP6Loop b i = none) :
+    ∀ d k, i ≤ d → b[d]? = some 58 → k < d → d ≤ k + 5 →
+      (5 ≤ d ∨ (i ≤ k ∧ ∀ j, k ≤ j → j < d → b[j]? ≠ some 58)) → (ip6PrefixAt b k).1 = false := by
+  fun_induction containsIP6Loop b i with
+  | case1 i hlt hidx =>
+    intro d k hd hb _ _ _
+    exact absurd hb (indexByteFrom_none b i 58 hidx d hd)
+  | case2 i hlt dOffs hidx offs r htry => cases h
+  | case3 i hlt dOffs hidx offs htry hg ih =>
+    intro d k hd hb hk1 hk2 hcond
+    obtain ⟨hd1, hd2, hd3⟩ := indexByteFrom_some b i 58 hidx
+    rcases Nat.lt_trichotomy d dOffs with hlt' | heq | hgt
+    · exact absurd hb (hd3 d hd hlt')
+    · subst heq
+      apply i6_try_none b offs d htry k ?_ hk1
+      by_cases h5 : d ≥ 5
+      · have : offs = d - 5 := by show (if h : d ≥ 5 then d - 5 else i) = _; rw [dif_pos h5]
+        omega
+      · have : offs = i := by show (if h : d ≥ 5 then d - 5 else i) = _; rw [dif_neg h5]
+        rcases hcond with hc | hc
+        · omega
+        · omega
+    · apply ih h d k (by omega) hb hk1 hk2
+      rcases hcond with hc | hc
+      · exact Or.inl hc
+      · right
+        refine ⟨?_, hc.2⟩
+        rcases Nat.lt_or_ge dOffs k with h' | h'
+        · omega
+        · exact absurd hd2 (hc.2 dOffs h' hgt)
+  | case4 i hlt dOffs hidx offs htry hg =>
+    obtain ⟨hd1, _, _⟩ := indexByteFrom_some b i 58 hidx
+    omega
+  | case5 i hlt =>
+    intro d k hd hb _ _ _
+    have := get?_lt hb
+    omega
+
+theorem i6_contains_sound (b : Buf) {o n : Nat} {a : Array Nat} {p : Bool} (h : containsIP6 b = some (o, n, a, p)) :
+    p = false ∧ (∃ e, ip6PrefixAt b o = (true, n, e, a, false)) ∧ ∃ d, b[d]? = some 58 ∧ o < d ∧ d ≤ o + 5 :=
+  i6_containsLoop_sound b 0 h
+
+theorem i6_contains_none (b : Buf) (h : containsIP6 b = none) :
+    ∀ d k, b[d]? = some 58 → k < d → d ≤ k + 5 → (5 ≤ d ∨ ∀ j, k ≤ j → j < d → b[j]? ≠ some 58) →
+      (ip6PrefixAt b k).1 = false := by
+  intro d k hb h1 h2 hc
+  refine i6_containsLoop_none b 0 h d k (Nat.zero_le _) hb h1 h2 ?_
+  rcases hc with hc | hc
+  · exact Or.inl hc
+  · exact Or.inr ⟨Nat.zero_le _, hc⟩
+
+
+/-! ### the decision table, read by the byte at which the scanner stopped -/
+
+section inv
+variable {b : Buf} {s : Nat} {br : Bool} {o : Nat} {g : I6G} {r : Bool × Nat × Err × Array Nat × Bool}
+
+/-- stopped at the end of the input -/
+theorem I6Out.eof_inv (h : I6Out b s br o g r) (hb : b[o]? = none) :
+    (g.Acc ∧ ∃ a, a.toList = g.value ∧ r = (true, o - s, (if br then .moreBytes else .ok), a, false)) ∨
+    (¬ g.Acc ∧ ∃ a, r = (false, o - s, (if (g.cur.isEmpty && g.pre.isEmpty) = false then .moreBytes else .bad), a,
+      false)) := by
+  cases h with
+  | eofAcc hb' hacc a ha => exact Or.inl ⟨hacc, a, ha, rfl⟩
+  | eofRej hb' hacc a => exact Or.inr ⟨hacc, a, rfl⟩
+  | colonMax hb' hacc hc hne a ha => rw [hb] at hb'; cases hb'
+  | colonAgain hb' h2 hcur hc => rw [hb] at hb'; cases hb'
+  | fifthAcc c hb' hx h4 hacc a ha => rw [hb] at hb'; cases hb'
+  | fifthRej c hb' hx h4 hacc a => rw [hb] at hb'; cases hb'
+  | closeAcc hb' hbr hacc a ha => rw [hb] at hb'; cases hb'
+  | closeRej hb' hbr hacc a => rw [hb] at hb'; cases hb'
+  | otherAcc c hb' h58 hx h93 hacc a ha => rw [hb] at hb'; cases hb'
+  | otherRej c hb' h58 hx h93 hacc a => rw [hb] at hb'; cases hb'
+
+/-- stopped at a colon: a third colon in a row / a second "::" is rejected with Bad at that colon; a colon after the
+    maximal number of colons ends the address (BadChar; Bad inside brackets) -/
+theorem I6Out.colon_inv (h : I6Out b s br o g r) (hb : b[o]? = some 58) :
+    (g.two = true ∧ g.cur = [] ∧ g.colons < 8 ∧ r = (false, o - s, .bad, Array.replicate 8 0, false)) ∨
+    (g.Acc ∧ g.colons = (if g.two then 8 else 7) ∧ ∃ a, a.toList = g.valueCut ∧
+      r = if br then (false, o - s, .bad, a, false) else (true, o - s, .badChar, a, false)) := by
+  cases h with
+  | eofAcc hb' hacc a ha => rw [hb] at hb'; cases hb'
+  | eofRej hb' hacc a => rw [hb] at hb'; cases hb'
+  | colonMax hb' hacc hc hne a ha => exact Or.inr ⟨hacc, hc, a, ha, rfl⟩
+  | colonAgain hb' h2 hcur hc => exact Or.inl ⟨h2, hcur, hc, rfl⟩
+  | fifthAcc c hb' hx h4 hacc a ha => rw [hb] at hb'; cases hb'; exact absurd hx i6_colon_not_hex
+  | fifthRej c hb' hx h4 hacc a => rw [hb] at hb'; cases hb'; exact absurd hx i6_colon_not_hex
+  | closeAcc hb' hbr hacc a ha => rw [hb] at hb'; cases hb'
+  | closeRej hb' hbr hacc a => rw [hb] at hb'; cases hb'
+  | otherAcc c hb' h58 hx h93 hacc a ha => rw [hb] at hb'; cases hb'; exact absurd rfl h58
+  | otherRej c hb' h58 hx h93 hacc a => rw [hb] at hb'; cases hb'; exact absurd rfl h58
+
+/-- stopped at a hex digit: it is a fifth digit; after a complete address MoreValues (Bad inside brackets), else Bad -/
+theorem I6Out.hex_inv (h : I6Out b s br o g r) {c : UInt8} (hb : b[o]? = some c) (hx : I6IsHex c) :
+    g.cur.length = 4 ∧
+    ((g.Acc ∧ ∃ a, a.toList = g.value ∧
+        r = if br then (false, o - s, .bad, a, false) else (true, o - s, .moreValues, a, false)) ∨
+     (¬ g.Acc ∧ ∃ a, r = (false, o - s, .bad, a, false))) := by
+  cases h with
+  | eofAcc hb' hacc a ha => rw [hb] at hb'; cases hb'
+  | eofRej hb' hacc a => rw [hb] at hb'; cases hb'
+  | colonMax hb' hacc hc hne a ha => rw [hb] at hb'; cases hb'; exact absurd hx i6_colon_not_hex
+  | colonAgain hb' h2 hcur hc => rw [hb] at hb'; cases hb'; exact absurd hx i6_colon_not_hex
+  | fifthAcc c' hb' hx' h4 hacc a ha => exact ⟨h4, Or.inl ⟨hacc, a, ha, rfl⟩⟩
+  | fifthRej c' hb' hx' h4 hacc a => exact ⟨h4, Or.inr ⟨hacc, a, rfl⟩⟩
+  | closeAcc hb' hbr hacc a ha => rw [hb] at hb'; cases hb'; exact absurd hx (by decide)
+  | closeRej hb' hbr hacc a => rw [hb] at hb'; cases hb'; exact absurd hx (by decide)
+  | otherAcc c' hb' h58 hx' h93 hacc a ha => rw [hb] at hb'; cases hb'; exact absurd hx hx'
+  | otherRej c' hb' h58 hx' h93 hacc a => rw [hb] at hb'; cases hb'; exact absurd hx hx'
+
+/-- stopped at the closing bracket of a bracketed text -/
+theorem I6Out.close_inv (h : I6Out b s br o g r) (hb : b[o]? = some 93) (hbr : br = true) :
+    (g.Acc ∧ ∃ a, a.toList = g.value ∧
+        r = (true, o + 1 - s, (if o + 1 < b.size then .moreValues else .ok), a, false)) ∨
+    (¬ g.Acc ∧ ∃ a, r = (false, o - s, .bad, a, false)) := by
+  cases h with
+  | eofAcc hb' hacc a ha => rw [hb] at hb'; cases hb'
+  | eofRej hb' hacc a => rw [hb] at hb'; cases hb'
+  | colonMax hb' hacc hc hne a ha => rw [hb] at hb'; cases hb'
+  | colonAgain hb' h2 hcur hc => rw [hb] at hb'; cases hb'
+  | fifthAcc c' hb' hx' h4 hacc a ha => rw [hb] at hb'; cases hb'; exact absurd hx' (by decide)
+  | fifthRej c' hb' hx' h4 hacc a => rw [hb] at hb'; cases hb'; exact absurd hx' (by decide)
+  | closeAcc hb' hbr' hacc a ha => exact Or.inl ⟨hacc, a, ha, rfl⟩
+  | closeRej hb' hbr' hacc a => exact Or.inr ⟨hacc, a, rfl⟩
+  | otherAcc c' hb' h58 hx' h93 hacc a ha => rw [hb] at hb'; cases hb'; exact absurd ⟨hbr, rfl⟩ h93
+  | otherRej c' hb' h58 hx' h93 hacc a => rw [hb] at hb'; cases hb'; exact absurd ⟨hbr, rfl⟩ h93
+
+/-- stopped at any other byte: after a complete address BadChar (Bad inside brackets: unbalanced bracket), else Bad -/
+theorem I6Out.other_inv (h : I6Out b s br o g r) {c : UInt8} (hb : b[o]? = some c) (h58 : c ≠ 58) (hx : ¬ I6IsHex c)
+    (h93 : ¬ (br = true ∧ c = 93)) :
+    (g.Acc ∧ ∃ a, a.toList = g.value ∧
+        r = if br then (false, o - s, .bad, a, false) else (true, o - s, .badChar, a, false)) ∨
+    (¬ g.Acc ∧ ∃ a, r = (false, o - s, .bad, a, false)) := by
+  cases h with
+  | eofAcc hb' hacc a ha => rw [hb] at hb'; cases hb'
+  | eofRej hb' hacc a => rw [hb] at hb'; cases hb'
+  | colonMax hb' hacc hc hne a ha => rw [hb] at hb'; cases hb'; exact absurd rfl h58
+  | colonAgain hb' h2 hcur hc => rw [hb] at hb'; cases hb'; exact absurd rfl h58
+  | fifthAcc c' hb' hx' h4 hacc a ha => rw [hb] at hb'; cases hb'; exact absurd hx' hx
+  | fifthRej c' hb' hx' h4 hacc a => rw [hb] at hb'; cases hb'; exact absurd hx' hx
+  | closeAcc hb' hbr' hacc a ha => rw [hb] at hb'; cases hb'; exact absurd ⟨hbr', rfl⟩ h93
+  | closeRej hb' hbr' hacc a => rw [hb] at hb'; cases hb'; exact absurd ⟨hbr', rfl⟩ h93
+  | otherAcc c' hb' h58' hx' h93' hacc a ha => exact Or.inl ⟨hacc, a, ha, rfl⟩
+  | otherRej c' hb' h58' hx' h93' hacc a => exact Or.inr ⟨hacc, a, rfl⟩
+
+end inv
+
+
+/-! ### the decision table on texts: what IP6Prefix returns for a text of the grammar followed by a given byte -/
+
+theorem i6_prefixAt_eof (b : Buf) (s : Nat) (g : I6G) (wf : g.WF) (hd : b.toList.drop (i6Start b s) = g.text) :
+    (g.Acc ∧ ∃ a, a.toList = g.value ∧ ip6PrefixAt b s =
+        (true, i6Start b s + g.text.length - s, (if i6Br b s then .moreBytes else .ok), a, false)) ∨
+    (¬ g.Acc ∧ ∃ a, ip6PrefixAt b s = (false, i6Start b s + g.text.length - s,
+        (if (g.cur.isEmpty && g.pre.isEmpty) = false then .moreBytes else .bad), a, false)) := by
+  obtain ⟨hseg, hnx⟩ := i6Seg_of_drop (rest := []) (by simpa using hd)
+  have hb : b[i6Start b s + g.text.length]? = none := by simpa using hnx
+  exact (i6_prefixAt_complete b s g wf hseg (fun c hc => by rw [hb] at hc; cases hc)).eof_inv hb
+
+/-- **rejections at a colon, with the returned offset**: a third colon in a row or a second "::" — Bad, offset of that
+    colon; a colon after the maximal number of colons (7 without "::", 8 with it) — the address ends there: BadChar,
+    or Bad inside brackets -/
+theorem i6_prefixAt_colon (b : Buf) (s : Nat) (g : I6G) (wf : g.WF) {rest : List UInt8}
+    (hd : b.toList.drop (i6Start b s) = g.text ++ 58 :: rest)
+    (hc : (g.colons = (if g.two then 8 else 7) ∧ (g.two = false → g.cur ≠ [])) ∨ (g.two = true ∧ g.cur = [])) :
+    (g.two = true ∧ g.cur = [] ∧ g.colons < 8 ∧
+      ip6PrefixAt b s = (false, i6Start b s + g.text.length - s, .bad, Array.replicate 8 0, false)) ∨
+    (g.Acc ∧ g.colons = (if g.two then 8 else 7) ∧ ∃ a, a.toList = g.valueCut ∧
+      ip6PrefixAt b s = if i6Br b s then (false, i6Start b s + g.text.length - s, .bad, a, false)
+        else (true, i6Start b s + g.text.length - s, .badChar, a, false)) := by
+  obtain ⟨hseg, hnx⟩ := i6Seg_of_drop hd
+  have hb : b[i6Start b s + g.text.length]? = some 58 := by simpa using hnx
+  refine (i6_prefixAt_complete b s g wf hseg (fun c hc' => ?_)).colon_inv hb
+  rw [hb] at hc'; cases hc'
+  exact ⟨fun _ => hc, fun hx => absurd hx i6_colon_not_hex⟩
+
+/-- **a group of more than four digits**: after a complete address MoreValues with the offset of the fifth digit (Bad
+    inside brackets); inside an address Bad -/
+theorem i6_prefixAt_hex (b : Buf) (s : Nat) (g : I6G) (wf : g.WF) {c : UInt8} {rest : List UInt8}
+    (hd : b.toList.drop (i6Start b s) = g.text ++ c :: rest) (hx : I6IsHex c) (h4 : g.cur.length = 4) :
+    (g.Acc ∧ ∃ a, a.toList = g.value ∧
+        ip6PrefixAt b s = if i6Br b s then (false, i6Start b s + g.text.length - s, .bad, a, false)
+          else (true, i6Start b s + g.text.length - s, .moreValues, a, false)) ∨
+     (¬ g.Acc ∧ ∃ a, ip6PrefixAt b s = (false, i6Start b s + g.text.length - s, .bad, a, false)) := by
+  obtain ⟨hseg, hnx⟩ := i6Seg_of_drop hd
+  have hb : b[i6Start b s + g.text.length]? = some c := by simpa using hnx
+  refine ((i6_prefixAt_complete b s g wf hseg (fun c' hc' => ?_)).hex_inv hb hx).2
+  rw [hb] at hc'; cases hc'
+  exact ⟨fun h58 => by rw [h58] at hx; exact absurd hx i6_colon_not_hex, fun _ => h4⟩
+
+/-- the closing bracket -/
+theorem i6_prefixAt_close (b : Buf) (s : Nat) (g : I6G) (wf : g.WF) {rest : List UInt8}
+    (hd : b.toList.drop (i6Start b s) = g.text ++ 93 :: rest) (hbr : i6Br b s = true) :
+    (g.Acc ∧ ∃ a, a.toList = g.value ∧ ip6PrefixAt b s =
+        (true, i6Start b s + g.text.length + 1 - s,
+          (if i6Start b s + g.text.length + 1 < b.size then .moreValues else .ok), a, false)) ∨
+    (¬ g.Acc ∧ ∃ a, ip6PrefixAt b s = (false, i6Start b s + g.text.length - s, .bad, a, false)) := by
+  obtain ⟨hseg, hnx⟩ := i6Seg_of_drop hd
+  have hb : b[i6Start b s + g.text.length]? = some 93 := by simpa using hnx
+  refine (i6_prefixAt_complete b s g wf hseg (fun c' hc' => ?_)).close_inv hb hbr
+  rw [hb] at hc'; cases hc'
+  exact ⟨(fun h => by cases h), fun hx => absurd hx (by decide)⟩
+
+/-- **any other byte** (in particular an unbalanced bracket: a bracketed address followed by something else than `]`,
+    verdict Bad; a `]` without `[` is just such a byte, verdict BadChar) -/
+theorem i6_prefixAt_other (b : Buf) (s : Nat) (g : I6G) (wf : g.WF) {c : UInt8} {rest : List UInt8}
+    (hd : b.toList.drop (i6Start b s) = g.text ++ c :: rest) (h58 : c ≠ 58) (hx : ¬ I6IsHex c)
+    (h93 : ¬ (i6Br b s = true ∧ c = 93)) :
+    (g.Acc ∧ ∃ a, a.toList = g.value ∧
+        ip6PrefixAt b s = if i6Br b s then (false, i6Start b s + g.text.length - s, .bad, a, false)
+          else (true, i6Start b s + g.text.length - s, .badChar, a, false)) ∨
+    (¬ g.Acc ∧ ∃ a, ip6PrefixAt b s = (false, i6Start b s + g.text.length - s, .bad, a, false)) := by
+  obtain ⟨hseg, hnx⟩ := i6Seg_of_drop hd
+  have hb : b[i6Start b s + g.text.length]? = some c := by simpa using hnx
+  refine (i6_prefixAt_complete b s g wf hseg (fun c' hc' => ?_)).other_inv hb h58 hx h93
+  rw [hb] at hc'; cases hc'
+  exact ⟨fun h => absurd h h58, fun h => absurd h hx⟩
+
+/-- when the group being read is empty or there is no "::", the value reported at a surplus colon is the right one -/
+theorem I6G.valueCut_eq (g : I6G) (h : g.two = false ∨ g.cur = []) : g.valueCut = g.value := by
+  unfold I6G.valueCut I6G.value I6G.tail
+  rcases h with h | h
+  · rw [h]; rfl
+  · rw [h]; rfl
+
+
+/-! ### the value consists of eight 16-bit words -/
+
+theorem i6Value_lt (pre tail : List (List UInt8)) (h1 : ∀ x ∈ pre, I6Hex4 x) (h2 : ∀ x ∈ tail, I6Hex4 x) :
+    ∀ w ∈ i6Value pre tail, w < 65536 := by
+  intro w hw
+  unfold i6Value at hw
+  simp only [List.mem_append, List.mem_map, List.mem_replicate] at hw
+  rcases hw with (⟨x, hx, rfl⟩ | ⟨_, rfl⟩) | ⟨x, hx, rfl⟩
+  · exact (h1 x hx).val_lt
+  · decide
+  · exact (h2 x hx).val_lt
+
+theorem I6G.tail_hex4 {g : I6G} (wf : g.WF) : ∀ x ∈ g.tail, I6Hex4 x := by
+  intro x hx
+  unfold I6G.tail at hx
+  split at hx
+  · exact (wf.postG x hx).2
+  · rcases List.mem_append.1 hx with h | h
+    · exact (wf.postG x h).2
+    · rw [List.mem_singleton.1 h]; exact wf.cur4
+
+theorem I6G.tail_length_le (g : I6G) : g.tail.length ≤ g.post.length + 1 := by
+  unfold I6G.tail
+  split <;> simp
+
+/-- the value of a complete address: eight words, each below 2^16 -/
+theorem I6G.value_words {g : I6G} (wf : g.WF) (hacc : g.Acc) : g.value.length = 8 ∧ ∀ w ∈ g.value, w < 65536 := by
+  unfold I6G.value
+  by_cases ht : g.two = true
+  · rw [if_pos ht]
+    have := (wf.tw ht).2
+    have := g.tail_length_le
+    exact ⟨i6Value_length _ _ (by omega), i6Value_lt _ _ wf.pre4 (g.tail_hex4 wf)⟩
+  · rw [if_neg ht]
+    have h7 : g.pre.length = 7 := by
+      rcases hacc with h | h
+      · exact absurd h ht
+      · exact h.1
+    refine ⟨i6Value_length _ _ (by simp; omega), i6Value_lt _ _ ?_ (fun x hx => by cases hx)⟩
+    intro x hx
+    rcases List.mem_append.1 hx with h | h
+    · exact wf.pre4 x h
+    · rw [List.mem_singleton.1 h]; exact wf.cur4
+
+theorem I6G.valueCut_words {g : I6G} (wf : g.WF) (hacc : g.Acc) :
+    g.valueCut.length = 8 ∧ ∀ w ∈ g.valueCut, w < 65536 := by
+  unfold I6G.valueCut
+  by_cases ht : g.two = true
+  · rw [if_pos ht]
+    have := (wf.tw ht).2
+    exact ⟨i6Value_length _ _ (by omega), i6Value_lt _ _ wf.pre4 (fun x hx => (wf.postG x hx).2)⟩
+  · have := (g.value_words wf hacc)
+    unfold I6G.value at this
+    rw [if_neg ht] at this ⊢
+    exact this
+
+/-! ### tests (closed computations on the model, `decide +kernel`) and non-vacuity of the hypotheses -/
+
+-- the usual notation
+example : ip6Prefix "::1".toUTF8.data = (true, 3, .ok, #[0, 0, 0, 0, 0, 0, 0, 1], false) := by decide +kernel
+example : ip6Prefix "1::".toUTF8.data = (true, 3, .ok, #[1, 0, 0, 0, 0, 0, 0, 0], false) := by decide +kernel
+example : ip6Prefix "::".toUTF8.data = (true, 2, .ok, #[0, 0, 0, 0, 0, 0, 0, 0], false) := by decide +kernel
+example : ip6Prefix "1:2:3:4:5:6:7:8".toUTF8.data = (true, 15, .ok, #[1, 2, 3, 4, 5, 6, 7, 8], false) := by
+  decide +kernel
+example : ip6Prefix "1:2:3:4:5:6:7::".toUTF8.data = (true, 15, .ok, #[1, 2, 3, 4, 5, 6, 7, 0], false) := by
+  decide +kernel
+example : ip6Prefix "::2:3:4:5:6:7:8".toUTF8.data = (true, 15, .ok, #[0, 2, 3, 4, 5, 6, 7, 8], false) := by
+  decide +kernel
+example : ip6Prefix "fe80::1%eth0".toUTF8.data = (true, 7, .badChar, #[65152, 0, 0, 0, 0, 0, 0, 1], false) := by
+  decide +kernel
+-- eight groups written AND a "::" (standing for no group): accepted
+example : ip6Prefix "1:2:3:4:5:6:7::8".toUTF8.data = (true, 16, .ok, #[1, 2, 3, 4, 5, 6, 7, 8], false) := by
+  decide +kernel
+example : ip6Prefix "1:2:3:4:5:6::8:9".toUTF8.data = (true, 16, .ok, #[1, 2, 3, 4, 5, 6, 8, 9], false) := by
+  decide +kernel
+-- brackets; a missing closing bracket is accepted with MoreBytes
+example : ip6Prefix "[::1]".toUTF8.data = (true, 5, .ok, #[0, 0, 0, 0, 0, 0, 0, 1], false) := by decide +kernel
+example : ip6Prefix "[::1]x".toUTF8.data = (true, 5, .moreValues, #[0, 0, 0, 0, 0, 0, 0, 1], false) := by
+  decide +kernel
+example : ip6Prefix "[::1".toUTF8.data = (true, 4, .moreBytes, #[0, 0, 0, 0, 0, 0, 0, 1], false) := by decide +kernel
+example : ip6Prefix "[::1x".toUTF8.data = (false, 4, .bad, #[0, 0, 0, 0, 0, 0, 0, 1], false) := by decide +kernel
+example : ip6Prefix "::1]".toUTF8.data = (true, 3, .badChar, #[0, 0, 0, 0, 0, 0, 0, 1], false) := by decide +kernel
+example : (ip6Prefix "[]".toUTF8.data).1 = false ∧ (ip6Prefix "[".toUTF8.data).1 = false := by decide +kernel
+-- too many colons, a second "::", more than four digits
+example : ip6Prefix "1:2:3:4:5:6:7:8:9".toUTF8.data = (true, 15, .badChar, #[1, 2, 3, 4, 5, 6, 7, 8], false) := by
+  decide +kernel
+example : ip6Prefix "1::2::3".toUTF8.data = (false, 5, .bad, #[0, 0, 0, 0, 0, 0, 0, 0], false) := by decide +kernel
+example : ip6Prefix "1:::".toUTF8.data = (false, 3, .bad, #[0, 0, 0, 0, 0, 0, 0, 0], false) := by decide +kernel
+example : ip6Prefix "12345::".toUTF8.data = (false, 4, .bad, #[4660, 0, 0, 0, 0, 0, 0, 0], false) := by decide +kernel
+example : ip6Prefix "abcd::12345".toUTF8.data = (true, 10, .moreValues, #[43981, 0, 0, 0, 0, 0, 0, 4660], false) := by
+  decide +kernel
+-- no dual IPv6 + IPv4 notation: the address ends before the dot
+example : ip6Prefix "::ffff:1.2.3.4".toUTF8.data = (true, 8, .badChar, #[0, 0, 0, 0, 0, 0, 65535, 1], false) := by
+  decide +kernel
+-- truncated texts
+example : ip6Prefix "1:2:3:4:5:6:7:".toUTF8.data = (false, 14, .moreBytes, #[1, 2, 3, 4, 5, 6, 7, 0], false) := by
+  decide +kernel
+example : (ip6Prefix "1:".toUTF8.data).1 = false ∧ (ip6Prefix ":".toUTF8.data).1 = false ∧
+    (ip6Prefix "".toUTF8.data).1 = false := by decide +kernel
+
+/-! #### accepted beyond the usual notation (pinned; see `I6G.Lead`, `I6G.Trail`) -/
+
+-- a single leading colon: an empty first group of value 0
+example : ip6Prefix ":1:2:3:4:5:6:7".toUTF8.data = (true, 14, .ok, #[0, 1, 2, 3, 4, 5, 6, 7], false) := by
+  decide +kernel
+example : ip6Prefix ":1::2".toUTF8.data = (true, 5, .ok, #[0, 1, 0, 0, 0, 0, 0, 2], false) := by decide +kernel
+-- a single trailing colon after the "::" part: ignored
+example : ip6Prefix "1::2:".toUTF8.data = (true, 5, .ok, #[1, 0, 0, 0, 0, 0, 0, 2], false) := by decide +kernel
+example : ip6Prefix "1::2:3:4:5:6:7::".toUTF8.data = (true, 15, .badChar, #[1, 0, 2, 3, 4, 5, 6, 7], false) := by
+  decide +kernel
+example : ip6Prefix "1:2:3:4:5:6:7:::".toUTF8.data = (true, 15, .badChar, #[1, 2, 3, 4, 5, 6, 7, 0], false) := by
+  decide +kernel
+
+/-! #### the value reported at a ninth colon loses the last group (`I6G.valueCut`; looks like a defect of the library) -/
+
+example : ip6Prefix "::2:3:4:5:6:7:8:".toUTF8.data = (true, 15, .badChar, #[0, 0, 2, 3, 4, 5, 6, 7], false) := by
+  decide +kernel
+example : ip6Prefix "1:2:3:4:5:6:7::8:".toUTF8.data = (true, 16, .badChar, #[1, 2, 3, 4, 5, 6, 7, 0], false) := by
+  decide +kernel
+/-- the text `::2:3:4:5:6:7:8` as the scanner reads it -/
+def i6ExCut : I6G := ⟨[[]], true, [[50], [51], [52], [53], [54], [55]], [56]⟩
+example : i6ExCut.text = "::2:3:4:5:6:7:8".toUTF8.data.toList := by decide
+example : i6ExCut.value = [0, 2, 3, 4, 5, 6, 7, 8] ∧ i6ExCut.valueCut = [0, 0, 2, 3, 4, 5, 6, 7] := by decide
+
+/-! #### ContainsIP6 -/
+
+example : containsIP6 "x1::2".toUTF8.data = some (1, 4, #[1, 0, 0, 0, 0, 0, 0, 2], false) := by decide +kernel
+example : containsIP6 "abcdef::1".toUTF8.data = some (2, 7, #[52719, 0, 0, 0, 0, 0, 0, 1], false) := by decide +kernel
+-- an address at the very start that begins with a colon is never tried (no position before the first colon)
+example : containsIP6 "::1".toUTF8.data = none ∧ containsIP6 "::ffff:1.2.3.4".toUTF8.data = none := by decide +kernel
+example : containsIP6 "1::2::3".toUTF8.data = some (3, 4, #[2, 0, 0, 0, 0, 0, 0, 3], false) := by decide +kernel
+
+/-! #### the hypotheses of the theorems are satisfiable -/
+
+example : I6Addr [58, 58, 49] [0, 0, 0, 0, 0, 0, 0, 1] :=
+  I6Addr.compressed [] [[49]] (fun x hx => by cases hx)
+    (fun x hx => by rw [List.mem_singleton.1 hx]; exact ⟨by decide, by decide, by decide⟩)
+    (by decide) (by decide) (by decide)
+
+example : ∃ a, a.toList = [0, 0, 0, 0, 0, 0, 0, 1] ∧
+    ip6PrefixAt "::1 ".toUTF8.data 0 = (true, 3, .badChar, a, false) := by
+  have h : I6Addr [58, 58, 49] [0, 0, 0, 0, 0, 0, 0, 1] :=
+    I6Addr.compressed [] [[49]] (fun x hx => by cases hx)
+      (fun x hx => by rw [List.mem_singleton.1 hx]; exact ⟨by decide, by decide, by decide⟩)
+      (by decide) (by decide) (by decide)
+  exact i6_prefixAt_addr "::1 ".toUTF8.data 0 (rest := [32]) h (by decide) (by decide)
+
+/-- the text `1::` as the scanner reads it -/
+def i6ExDc : I6G := ⟨[[49]], true, [], []⟩
+
+theorem i6ExDc_wf : i6ExDc.WF :=
+  ⟨(fun x hx => by rw [List.mem_singleton.1 hx]; exact ⟨by decide, by decide⟩), (fun x hx => by cases hx),
+    (fun x hx => by cases hx), I6Hex4_nil, (fun h => by cases h), (fun _ => ⟨by decide, by decide⟩)⟩
+
+-- a third colon after "1::" is rejected with Bad at offset 3 (instance of `i6_prefixAt_colon`, first alternative)
+example : ip6PrefixAt "1:::".toUTF8.data 0 = (false, 3, .bad, Array.replicate 8 0, false) := by
+  rcases i6_prefixAt_colon "1:::".toUTF8.data 0 i6ExDc i6ExDc_wf (rest := []) (by decide) (Or.inr ⟨rfl, rfl⟩) with
+    h | h
+  · exact h.2.2.2
+  · exact absurd h.2.1 (by decide)
+
 
 end Sipsp
